@@ -7477,6 +7477,1732 @@ GENERATORS["Search"] = gen_search
 
 
 # ---------------------------------------------------------------------------------------------------------
+# Node.to_gfa_line / GFA.sort_bo_no / GFA.write_gfa: every statement of the three functions, in source order (C07, C06, C18)
+
+W_STR, W_STRING, W_NAT, W_INT, W_BOOL, W_SIDE, W_PYV = "Str", "String", "Nat", "Int", "Bool", "Side", "PyV"
+W_GFA, W_NODES, W_ETAGS, W_NODE, W_NTAGS = "GFA", "Nodes", "EdgeTags", "Node", "NodeTags"
+W_ADJ = ("Tup", (W_STRING, W_SIDE, W_NAT))
+W_EKEY = ("Tup", (W_STRING, W_SIDE, W_STRING, W_SIDE))
+W_TAGITEM = ("Tup", (W_STRING, ("Tup", (W_STRING, W_STRING))))
+_WG_RESERVED = _LEAN_RESERVED | {"g", "tagv", "old", "it", "st", "Str", "PyV", "Node", "Graph"}
+
+WRITE_GFA_PRELUDE = """import Gaftools.Model.GfaText
+/-! %s -/
+set_option linter.unusedVariables false
+namespace Gaftools.Gen.WriteGfa
+open Gaftools.Gfa
+
+abbrev Str := List Char
+
+/-- an element of a list handed to `str.join`: a string, or an integer (`edge_tags` holds the list `[0]` for a link without tags) -/
+inductive PyV where
+  | str (s : Str)
+  | int (i : Int)
+deriving DecidableEq, Repr
+
+/-- `sep.join(l)`; `none` = TypeError (an element is not a string) -/
+def pyJoin (sep : Str) : List PyV → Option Str
+  | [] => some []
+  | [PyV.str x] => some x
+  | PyV.str x :: y :: r => (pyJoin sep (y :: r)).map (fun t => x ++ sep ++ t)
+  | PyV.int _ :: _ => none
+
+/-- the Python list stored in `edge_tags` for the model's tag list (`Graph.edgeTags`: "the `[0]` marker = `[]`") -/
+def pyTags (v : List String) : List PyV := if v.isEmpty then [PyV.int 0] else v.map (fun s => PyV.str s.toList)
+/-- `self.edge_tags[k]` (`none` = KeyError) -/
+def edgeTagsPy (g : Graph) (k : EdgeKey) : Option (List PyV) := (edgeTagsGet g k).map pyTags
+/-- `str(n)` of a non-negative integer -/
+def strNat (n : Nat) : Str := Nat.toDigits 10 n
+/-- `self.tags.items()` of a node: `(name, (type, value))` in insertion order -/
+def tagItems (n : Node) : List (String × String × String) := n.tags.map (fun t => (t.name, t.ty, t.val))
+
+/-- a Python dict as an association list in insertion order -/
+def dictHas {κ ν : Type} [BEq κ] (d : List (κ × ν)) (k : κ) : Bool := d.any (·.1 == k)
+def dictGet {κ ν : Type} [BEq κ] (d : List (κ × ν)) (k : κ) : Option ν := (d.find? (·.1 == k)).map (·.2)
+def dictSet {κ ν : Type} [BEq κ] (d : List (κ × ν)) (k : κ) (v : ν) : List (κ × ν) :=
+  if d.any (·.1 == k) then d.map (fun e => if e.1 == k then (k, v) else e) else d ++ [(k, v)]
+
+/-- stable insertion by an integer key -/
+def insKey {α : Type} (x : Int × α) : List (Int × α) → List (Int × α)
+  | [] => [x]
+  | y :: ys => if x.1 ≤ y.1 then x :: y :: ys else y :: insKey x ys
+/-- `sorted(l, key=…)` once the keys `ks` of the elements are computed (stable) -/
+def sortedBy {α : Type} (ks : List Int) (l : List α) : List α := ((ks.zip l).foldr insKey []).map (·.2)
+/-- `sorted(l)` of integers -/
+def pySorted (l : List Int) : List Int := sortedBy l l
+
+"""
+
+
+def _wt(t):
+    """Lean type of a translation type"""
+    if t in (W_BOOL, W_SIDE):
+        return "Bool"
+    if t in (W_STR, W_STRING, W_NAT, W_INT, W_PYV, W_NODE):
+        return t
+    if isinstance(t, tuple) and t[0] == "Opt":
+        return "Option %s" % _wt_atom(t[1])
+    if isinstance(t, tuple) and t[0] == "List":
+        return "List %s" % _wt_atom(t[1])
+    if isinstance(t, tuple) and t[0] == "Tup":
+        return " × ".join(_wt_atom(x) if i < len(t[1]) - 1 else _wt_tail(x) for i, x in enumerate(t[1]))
+    if isinstance(t, tuple) and t[0] == "Dict":
+        return "List (%s × %s)" % (_wt_atom(t[1]), _wt_tail(t[2]))
+    raise Untranslatable("type %s" % (t,))
+
+
+def _wt_atom(t):
+    s = _wt(t)
+    return s if " " not in s else "(%s)" % s
+
+
+def _wt_tail(t):
+    # the last component of a product needs no parentheses when it is a product itself
+    s = _wt(t)
+    if isinstance(t, tuple) and t[0] == "Tup":
+        return s
+    return s if " " not in s else "(%s)" % s
+
+
+def _lean_string(s):
+    out = []
+    for c in s:
+        if c == '"':
+            out.append('\\"')
+        elif c == "\\":
+            out.append("\\\\")
+        elif c == "\t":
+            out.append("\\t")
+        elif c == "\n":
+            out.append("\\n")
+        elif 32 <= ord(c) < 127:
+            out.append(c)
+        else:
+            raise Untranslatable("character %r in a string constant" % c)
+    return '"%s"' % "".join(out)
+
+
+def _tup_proj(term, i, n):
+    if i == 0:
+        return "%s.1" % term
+    return term + ".2" * i + (".1" if i < n - 1 else "")
+
+
+class _WgTr:
+    """typed translation of the statements of one method into a Lean term of type `Option _` (`none` = the Python raises).
+    A Python variable is a Lean variable of the same name, re-bound by `let` on assignment; an operation that can raise
+    (`d[k]`, `l[0]`, `sep.join(l)`, a call of another translated method) is bound by `match … with | none => none | some v =>`
+    in evaluation order; the body of a `for` loop becomes a definition of its own over the variables it assigns."""
+
+    def __init__(self, cls, fname, lean_name, ctx, self_type, methods, out_name=None):
+        self.cls = cls                  # the ClassDef (for called methods)
+        self.fname = fname
+        self.lean_name = lean_name
+        self.ctx = ctx                  # [(lean variable, lean type)] passed to every definition
+        self.self_type = self_type      # W_GFA or W_NODE
+        self.methods = methods          # python method name -> (lean name, parameter types, defaults, result type)
+        self.out_name = out_name        # the parameter holding the file content before the call (write_gfa)
+        self.defs = []
+        self.k = 0
+        self.nloops = 0
+
+    # ---- helpers
+    def fresh(self):
+        self.k += 1
+        return "v%d" % self.k
+
+    def bind(self, term, binds):
+        for v, t in binds:
+            if t == term:
+                return v
+        v = self.fresh()
+        binds.append((v, term))
+        return v
+
+    def ctx_args(self):
+        return " ".join(v for v, _ in self.ctx)
+
+    def ctx_params(self):
+        return "".join("(%s : %s) " % (v, t) for v, t in self.ctx)
+
+    def coerce(self, t, have, want):
+        if have == want or want is None:
+            return t
+        if have == W_STRING and want == W_STR:
+            return "%s.toList" % t
+        if have == W_STR and want == W_PYV:
+            return "(PyV.str %s)" % t
+        if have == W_STRING and want == W_PYV:
+            return "(PyV.str %s.toList)" % t
+        if have == ("List", W_STR) and want == ("List", W_PYV):
+            return "(%s.map PyV.str)" % t
+        if have == W_NAT and want == W_INT:
+            return "(%s : Int)" % t
+        raise Untranslatable("a value of type %s where %s is needed (%s)" % (have, want, t))
+
+    def ex(self, e, env, binds, expect=None):
+        t, ty = self._ex(e, env, binds, expect)
+        if expect is not None:
+            return self.coerce(t, ty, expect), expect
+        return t, ty
+
+    def _const(self, e, expect):
+        v = e.value
+        if v is None:
+            if isinstance(expect, tuple) and expect[0] == "Opt":
+                return "none", expect
+            raise Untranslatable("None where %s is expected" % (expect,))
+        if isinstance(v, bool):
+            return ("true" if v else "false"), W_BOOL
+        if isinstance(v, int):
+            if expect == W_SIDE:
+                if v in (0, 1):
+                    return ("true" if v == 1 else "false"), W_SIDE
+                raise Untranslatable("side constant %r" % v)
+            if expect == W_PYV:
+                return "(PyV.int %d)" % v, W_PYV
+            if expect == W_NAT and v >= 0:
+                return str(v), W_NAT
+            return "(%d : Int)" % v, W_INT
+        if isinstance(v, str):
+            if expect == W_STRING:
+                return _lean_string(v), W_STRING
+            return _chars(v), W_STR
+        raise Untranslatable("constant %r" % (v,))
+
+    def _tag_value(self, e, env, binds):
+        """`self[n].tags[K][1]` / `self.nodes[n].tags[K][1]`: the value of tag K of node n (`none`: no such node, no such tag)"""
+        if not (isinstance(e, ast.Subscript) and isinstance(e.slice, ast.Constant) and e.slice.value == 1 and not isinstance(e.slice.value, bool)):
+            return None
+        d = e.value
+        if not (isinstance(d, ast.Subscript) and isinstance(d.slice, ast.Constant) and isinstance(d.slice.value, str)):
+            return None
+        a = d.value
+        if not (isinstance(a, ast.Attribute) and a.attr == "tags" and isinstance(a.value, ast.Subscript)):
+            return None
+        o, to = self.ex(a.value.value, env, binds)
+        if to not in (W_GFA, W_NODES):
+            raise Untranslatable("tag value %s" % ast.unparse(e))
+        k, _ = self.ex(a.value.slice, env, binds, W_STRING)
+        return self.bind("tagv %s %s" % (_lean_string(d.slice.value), k), binds), W_INT
+
+    def _ex(self, e, env, binds, expect):
+        u = ast.unparse(e)
+        if isinstance(e, ast.Constant):
+            return self._const(e, expect)
+        if isinstance(e, ast.Name):
+            if e.id == "self":
+                return ("g" if self.self_type == W_GFA else "self"), self.self_type
+            if e.id in env:
+                return e.id, env[e.id]
+            raise Untranslatable("name %s" % e.id)
+        if isinstance(e, ast.JoinedStr):
+            parts = []
+            for p in e.values:
+                if isinstance(p, ast.Constant) and isinstance(p.value, str):
+                    parts.append(_chars(p.value))
+                elif isinstance(p, ast.FormattedValue) and p.conversion == -1 and p.format_spec is None:
+                    t, ty = self.ex(p.value, env, binds)
+                    if ty == W_STRING:
+                        parts.append("%s.toList" % t)
+                    elif ty == W_STR:
+                        parts.append(t)
+                    elif ty == W_NAT:
+                        parts.append("strNat %s" % t)
+                    else:
+                        raise Untranslatable("f-string prints %s" % ast.unparse(p.value))
+                else:
+                    raise Untranslatable("f-string %s" % u)
+            return "(" + " ++ ".join(parts or ["[]"]) + ")", W_STR
+        tv = self._tag_value(e, env, binds)
+        if tv is not None:
+            return tv
+        if isinstance(e, ast.Attribute):
+            o, to = self.ex(e.value, env, binds)
+            if to == W_GFA and e.attr == "nodes":
+                return o, W_NODES
+            if to == W_GFA and e.attr == "edge_tags":
+                return o, W_ETAGS
+            if to == W_NODE:
+                if e.attr == "start":
+                    return "%s.startAdj" % o, ("List", W_ADJ)
+                if e.attr == "end":
+                    return "%s.endAdj" % o, ("List", W_ADJ)
+                if e.attr in ("seq", "id"):
+                    return "%s.%s" % (o, e.attr), W_STRING
+                if e.attr == "tags":
+                    return o, W_NTAGS
+            raise Untranslatable("attribute %s" % u)
+        if isinstance(e, ast.Subscript):
+            o, ty = self.ex(e.value, env, binds)
+            sl = e.slice
+            if ty == W_NODES:
+                k, _ = self.ex(sl, env, binds, W_STRING)
+                return self.bind("%s.find %s" % (o, k), binds), W_NODE
+            if ty == W_ETAGS:
+                k, _ = self.ex(sl, env, binds, W_EKEY)
+                return self.bind("edgeTagsPy %s %s" % (o, k), binds), ("List", W_PYV)
+            if isinstance(ty, tuple) and ty[0] == "Tup":
+                if isinstance(sl, ast.Constant) and isinstance(sl.value, int) and not isinstance(sl.value, bool) and 0 <= sl.value < len(ty[1]):
+                    return _tup_proj(o, sl.value, len(ty[1])), ty[1][sl.value]
+                raise Untranslatable("index of a tuple: %s" % u)
+            if isinstance(ty, tuple) and ty[0] == "List":
+                if isinstance(sl, ast.Constant) and isinstance(sl.value, int) and not isinstance(sl.value, bool) and sl.value >= 0:
+                    return self.bind("%s[%d]?" % (o, sl.value), binds), ty[1]
+                raise Untranslatable("subscript %s" % u)
+            if isinstance(ty, tuple) and ty[0] == "Dict":
+                k, _ = self.ex(sl, env, binds, ty[1])
+                return self.bind("dictGet %s %s" % (o, k), binds), ty[2]
+            raise Untranslatable("subscript %s" % u)
+        if isinstance(e, ast.Tuple):
+            if isinstance(expect, tuple) and expect[0] == "Tup" and len(expect[1]) == len(e.elts):
+                xs = [self.ex(x, env, binds, ty)[0] for x, ty in zip(e.elts, expect[1])]
+                return "(%s)" % ", ".join(xs), expect
+            raise Untranslatable("tuple %s where %s is expected" % (u, expect))
+        if isinstance(e, ast.List):
+            if isinstance(expect, tuple) and expect[0] == "List":
+                xs = [self.ex(x, env, binds, expect[1])[0] for x in e.elts]
+                return "[%s]" % ", ".join(xs), expect
+            raise Untranslatable("list display %s where %s is expected" % (u, expect))
+        if isinstance(e, ast.BinOp) and isinstance(e.op, ast.Add):
+            if isinstance(expect, tuple) and expect[0] == "List":
+                a, _ = self.ex(e.left, env, binds, expect)
+                b, _ = self.ex(e.right, env, binds, expect)
+                return "(%s ++ %s)" % (a, b), expect
+            a, ta = self.ex(e.left, env, binds)
+            if ta == W_STR:
+                b, _ = self.ex(e.right, env, binds, W_STR)
+                return "(%s ++ %s)" % (a, b), W_STR
+            if isinstance(ta, tuple) and ta[0] == "List":
+                b, _ = self.ex(e.right, env, binds, ta)
+                return "(%s ++ %s)" % (a, b), ta
+            raise Untranslatable("sum %s" % u)
+        if isinstance(e, ast.BoolOp):
+            parts = []
+            for i, x in enumerate(e.values):
+                n = len(binds)
+                parts.append(self.cond(x, env, binds))
+                if i > 0 and len(binds) > n:
+                    raise Untranslatable("an operand of %s that can raise is evaluated conditionally" % u)
+            return "(" + (" && " if isinstance(e.op, ast.And) else " || ").join(parts) + ")", W_BOOL
+        if isinstance(e, ast.UnaryOp) and isinstance(e.op, ast.Not):
+            return "(!%s)" % self.cond(e.operand, env, binds), W_BOOL
+        if isinstance(e, ast.Compare) and len(e.ops) == 1:
+            l, r, op = e.left, e.comparators[0], type(e.ops[0])
+            if op in (ast.In, ast.NotIn):
+                a, ta = self.ex(l, env, binds)             # Python evaluates the left operand first
+                b, tb = self.ex(r, env, binds)
+                if tb == W_NODES:
+                    c = "(%s.has %s)" % (b, self.coerce(a, ta, W_STRING))
+                elif isinstance(tb, tuple) and tb[0] == "List" and tb[1] in (W_STRING, W_INT):
+                    c = "(%s.contains %s)" % (b, self.coerce(a, ta, tb[1]))
+                elif isinstance(tb, tuple) and tb[0] == "Dict":
+                    c = "(dictHas %s %s)" % (b, self.coerce(a, ta, tb[1]))
+                else:
+                    raise Untranslatable("membership in %s" % ast.unparse(r))
+                return (c if op is ast.In else "(!%s)" % c), W_BOOL
+            if op in (ast.Is, ast.IsNot) and isinstance(r, ast.Constant):
+                a, ta = self.ex(l, env, binds)
+                if r.value is None and isinstance(ta, tuple) and ta[0] == "Opt":
+                    return ("%s.isNone" if op is ast.Is else "%s.isSome") % a, W_BOOL
+                if isinstance(r.value, bool) and ta == W_BOOL:
+                    return "(%s %s %s)" % (a, "==" if op is ast.Is else "!=", "true" if r.value else "false"), W_BOOL
+                raise Untranslatable("test %s" % u)
+            if op in (ast.Eq, ast.NotEq):
+                a, ty = self.ex(l, env, binds)
+                b, _ = self.ex(r, env, binds, ty)
+                if ty not in (W_STR, W_STRING, W_INT, W_NAT, W_BOOL, W_SIDE, W_PYV):
+                    raise Untranslatable("comparison %s" % u)
+                return "(%s %s %s)" % (a, "==" if op is ast.Eq else "!=", b), W_BOOL
+            raise Untranslatable("comparison %s" % u)
+        if isinstance(e, ast.Call):
+            return self._call(e, env, binds, expect)
+        raise Untranslatable("expression %s" % u)
+
+    def _call(self, e, env, binds, expect):
+        u = ast.unparse(e)
+        f = ast.unparse(e.func)
+        if f == "sorted" and len(e.args) == 1:
+            l, tl = self.ex(e.args[0], env, binds)
+            if not (isinstance(tl, tuple) and tl[0] == "List"):
+                raise Untranslatable("sorted of %s" % ast.unparse(e.args[0]))
+            if not e.keywords:
+                if tl[1] != W_INT:
+                    raise Untranslatable("sorted of %s" % (tl,))
+                return "(pySorted %s)" % l, tl
+            if len(e.keywords) == 1 and e.keywords[0].arg == "key" and isinstance(e.keywords[0].value, ast.Lambda):
+                lam = e.keywords[0].value
+                if len(lam.args.args) != 1 or lam.args.defaults or lam.args.vararg or lam.args.kwarg or lam.args.kwonlyargs:
+                    raise Untranslatable("sort key %s" % ast.unparse(lam))
+                x = lam.args.args[0].arg
+                if x in _WG_RESERVED or x in env:
+                    raise Untranslatable("variable name %s" % x)
+                env2 = dict(env)
+                env2[x] = tl[1]
+                kb = []
+                kt, _ = self.ex(lam.body, env2, kb, W_INT)
+                keys = self.bind("%s.mapM (fun %s => %s)" % (l, x, self.opt_term(kb, kt)), binds)
+                return "(sortedBy %s %s)" % (keys, l), tl
+            raise Untranslatable("call %s" % u)
+        if e.keywords:
+            raise Untranslatable("call %s" % u)
+        if f == "str" and len(e.args) == 1:
+            a, ta = self.ex(e.args[0], env, binds)
+            if ta == W_STRING:
+                return "%s.toList" % a, W_STR
+            if ta == W_NAT:
+                return "(strNat %s)" % a, W_STR
+            if ta == W_STR:
+                return a, W_STR
+            raise Untranslatable("str of %s" % ast.unparse(e.args[0]))
+        if f == "int" and len(e.args) == 1:
+            a, ta = self.ex(e.args[0], env, binds)
+            if ta == W_INT:
+                return a, W_INT
+            raise Untranslatable("int of %s" % ast.unparse(e.args[0]))
+        if f == "dict" and not e.args:
+            if isinstance(expect, tuple) and expect[0] == "Dict":
+                return "[]", expect
+            raise Untranslatable("dict() where %s is expected" % (expect,))
+        if f == "open" and len(e.args) == 2 and self.out_name and ast.unparse(e.args[0]) == self.out_name \
+                and isinstance(e.args[1], ast.Constant) and isinstance(e.args[1].value, str):
+            mode = e.args[1].value
+            if mode in ("w", "w+"):
+                return "[]", W_STR                       # the file is truncated
+            if mode in ("a", "a+"):
+                return "(old.getD [])", W_STR            # what the file holds (nothing when it does not exist)
+            raise Untranslatable("open mode %r" % mode)
+        if f == "os.path.exists" and len(e.args) == 1 and self.out_name and ast.unparse(e.args[0]) == self.out_name:
+            return "old.isSome", W_BOOL
+        if isinstance(e.func, ast.Attribute):
+            m = e.func.attr
+            if m == "join" and isinstance(e.func.value, ast.Constant) and isinstance(e.func.value.value, str) and len(e.args) == 1:
+                l, _ = self.ex(e.args[0], env, binds, ("List", W_PYV))
+                return self.bind("pyJoin %s %s" % (_chars(e.func.value.value), l), binds), W_STR
+            o, to = self.ex(e.func.value, env, binds)
+            if m == "keys" and to == W_NODES and not e.args:
+                return "(%s.nodes.map (·.id))" % o, ("List", W_STRING)
+            if m == "items" and not e.args:
+                if to == W_NTAGS:
+                    return "(tagItems %s)" % o, ("List", W_TAGITEM)
+                if isinstance(to, tuple) and to[0] == "Dict":
+                    return o, ("List", ("Tup", (to[1], to[2])))
+            owner = {W_GFA: "GFA", W_NODE: "Node"}.get(to)
+            if owner and (owner, m) in self.methods:
+                lean, ptypes, defaults, rty = self.methods[(owner, m)]
+                if len(e.args) > len(ptypes):
+                    raise Untranslatable("call %s" % u)
+                xs = [self.ex(a, env, binds, ty)[0] for a, ty in zip(e.args, ptypes)]
+                for i in range(len(e.args), len(ptypes)):
+                    if defaults[i] is None:
+                        raise Untranslatable("call %s: missing argument" % u)
+                    xs.append(defaults[i])
+                head = lean + " " + (self.ctx_args() if to == W_GFA else o)
+                return self.bind(" ".join([head] + xs), binds), rty
+        raise Untranslatable("call %s" % u)
+
+    def cond(self, e, env, binds):
+        """truth value of an expression"""
+        if isinstance(e, (ast.Compare, ast.BoolOp)) or (isinstance(e, ast.UnaryOp) and isinstance(e.op, ast.Not)):
+            return self.ex(e, env, binds, W_BOOL)[0]
+        t, ty = self.ex(e, env, binds)
+        if ty == W_BOOL:
+            return t
+        if isinstance(ty, tuple) and ty[0] in ("List", "Dict"):
+            return "(!%s.isEmpty)" % t
+        raise Untranslatable("truth value of %s" % ast.unparse(e))
+
+    @staticmethod
+    def opt_term(binds, value):
+        """one-line term of type Option: the bindings, then `some value`"""
+        if len(binds) == 1 and binds[0][0] == value:
+            return "(%s)" % binds[0][1]
+        t = "some %s" % value
+        for v, b in reversed(binds):
+            t = "match %s with | none => none | some %s => (%s)" % (b, v, t)
+        return "(%s)" % t
+
+    @staticmethod
+    def wrap(binds, pad, inner):
+        out = []
+        for v, t in binds:
+            out.append("%smatch %s with\n%s| none => none\n%s| some %s =>" % (pad, t, pad, pad, v))
+        return "\n".join(out + [inner(pad)])
+
+    # ---- statements
+    @staticmethod
+    def skip(st):
+        """statements without an effect on the result: doc strings, `pass`, logging, `f.close()`"""
+        if isinstance(st, ast.Pass) or (isinstance(st, ast.Expr) and isinstance(st.value, ast.Constant)):
+            return True
+        if isinstance(st, ast.Expr) and isinstance(st.value, ast.Call):
+            f = ast.unparse(st.value.func)
+            if f in ("logging.warning", "logging.info", "logging.debug", "logging.error", "logger.warning", "logger.info", "logger.debug"):
+                return True
+            if f.endswith(".close") and not st.value.args:
+                return True
+        return False
+
+    def target_name(self, t):
+        if isinstance(t, ast.Name):
+            return t.id
+        if isinstance(t, ast.Subscript) and isinstance(t.value, ast.Name):
+            return t.value.id
+        raise Untranslatable("assignment target %s" % ast.unparse(t))
+
+    def assigned(self, stmts):
+        out = []
+
+        def add(n):
+            if n not in out:
+                out.append(n)
+        for st in stmts:
+            if self.skip(st) or isinstance(st, ast.Continue):
+                continue
+            if isinstance(st, ast.Assign):
+                for t in st.targets:
+                    add(self.target_name(t))
+            elif isinstance(st, ast.Expr) and isinstance(st.value, ast.Call) and isinstance(st.value.func, ast.Attribute) \
+                    and st.value.func.attr in ("append", "write"):
+                add(self.target_name(st.value.func.value))
+            elif isinstance(st, ast.If):
+                for n in self.assigned(st.body) + self.assigned(st.orelse):
+                    add(n)
+            elif isinstance(st, ast.Try):
+                for n in self.assigned(st.body) + [x for h in st.handlers for x in self.assigned(h.body)]:
+                    add(n)
+            elif isinstance(st, ast.For):
+                inner = [t.id for t in ([st.target] if isinstance(st.target, ast.Name) else getattr(st.target, "elts", [])) if isinstance(t, ast.Name)]
+                for n in self.assigned(st.body):
+                    if n not in inner:
+                        add(n)
+            else:
+                raise Untranslatable("statement %s" % ast.unparse(st)[:70])
+        return out
+
+    def check_name(self, name):
+        if name in _WG_RESERVED or name.startswith("_") or re.fullmatch(r"v\d+", name) or not re.fullmatch(r"[A-Za-z][A-Za-z0-9_]*", name):
+            raise Untranslatable("variable name %s" % name)
+
+    def single_assign(self, st, env):
+        """the variable when `st` is an `if` all of whose branches are one assignment to the same variable (a missing branch keeps it)"""
+        def leaves(s):
+            if isinstance(s, ast.If):
+                b = [x for x in s.body if not self.skip(x)]
+                o = [x for x in s.orelse if not self.skip(x)]
+                if len(b) != 1 or len(o) > 1:
+                    return None
+                lb = leaves(b[0])
+                lo = leaves(o[0]) if o else {None}
+                if lb is None or lo is None:
+                    return None
+                return lb | lo
+            if isinstance(s, ast.Assign) and len(s.targets) == 1 and isinstance(s.targets[0], ast.Name):
+                return {s.targets[0].id}
+            return None
+        ls = leaves(st)
+        if ls is None:
+            return None
+        names = ls - {None}
+        if len(names) != 1:
+            return None
+        name = next(iter(names))
+        if None in ls and name not in env:
+            return None
+        return name
+
+    def ite_value(self, s, name, ty, env, tb):
+        """("pure", term) or ("opt", term of type Option) for the value `name` has after `s`; only the outermost test may bind (`tb`:
+        it is evaluated in any case)"""
+        if isinstance(s, ast.Assign):
+            b = []
+            v, _ = self.ex(s.value, env, b, ty)
+            return ("pure", v) if not b else ("opt", self.opt_term(b, v))
+        body = [x for x in s.body if not self.skip(x)]
+        orelse = [x for x in s.orelse if not self.skip(x)]
+        if tb is None:
+            tb2 = []
+            c = self.cond(s.test, env, tb2)
+            if tb2:
+                raise _NotSimple()
+        else:
+            c = self.cond(s.test, env, tb)
+        a = self.ite_value(body[0], name, ty, env, None)
+        b = self.ite_value(orelse[0], name, ty, env, None) if orelse else ("pure", name)
+        if a[0] == "pure" and b[0] == "pure":
+            return ("pure", "(if %s then %s else %s)" % (c, a[1], b[1]))
+        return ("opt", "(if %s then %s else %s)" % (c, a[1] if a[0] == "opt" else "(some %s)" % a[1], b[1] if b[0] == "opt" else "(some %s)" % b[1]))
+
+    def blk(self, stmts, env, ind, fall, decl):
+        """stmts -> Lean text of type `Option _`; `fall(env, ind)` = text for leaving the block (end of the body / `continue`)"""
+        pad = " " * ind
+        if not stmts:
+            return fall(env, ind)
+        st, rest = stmts[0], stmts[1:]
+        u = ast.unparse(st)
+        if self.skip(st):
+            return self.blk(rest, env, ind, fall, decl)
+        if isinstance(st, ast.Continue):
+            return fall(env, ind)
+        binds = []
+
+        def let(name, ty, term):
+            self.check_name(name)
+            if name in env and env[name] != ty:
+                raise Untranslatable("%s changes its type" % name)
+            env2 = dict(env)
+            env2[name] = ty
+            return self.wrap(binds, pad, lambda p: "%slet %s : %s := %s\n%s" % (p, name, _wt(ty), term, self.blk(rest, env2, ind, fall, decl)))
+        if isinstance(st, ast.Return):
+            if self.ret_type is None or st.value is None:
+                raise Untranslatable("return in %s" % self.fname)
+            v, _ = self.ex(st.value, env, binds, self.ret_type)
+            return self.wrap(binds, pad, lambda p: "%ssome %s" % (p, v))
+        if isinstance(st, ast.Assign) and len(st.targets) == 1:
+            t = st.targets[0]
+            name = self.target_name(t)
+            if isinstance(t, ast.Subscript):
+                ty = env.get(name)
+                if not (isinstance(ty, tuple) and ty[0] == "Dict"):
+                    raise Untranslatable("assignment %s" % u)
+                v, _ = self.ex(st.value, env, binds, ty[2])          # the value is evaluated before the key
+                k, _ = self.ex(t.slice, env, binds, ty[1])
+                return let(name, ty, "dictSet %s %s %s" % (name, k, v))
+            ty = decl.get(name, env.get(name))
+            v, tv = self.ex(st.value, env, binds, ty)
+            return let(name, tv, v)
+        if isinstance(st, ast.Expr) and isinstance(st.value, ast.Call) and isinstance(st.value.func, ast.Attribute) \
+                and len(st.value.args) == 1 and not st.value.keywords:
+            m, recv = st.value.func.attr, st.value.func.value
+            if m == "append" and isinstance(recv, ast.Name):
+                ty = env.get(recv.id)
+                if not (isinstance(ty, tuple) and ty[0] == "List"):
+                    raise Untranslatable("append to %s" % recv.id)
+                v, _ = self.ex(st.value.args[0], env, binds, ty[1])
+                return let(recv.id, ty, "(%s ++ [%s])" % (recv.id, v))
+            if m == "append" and isinstance(recv, ast.Subscript) and isinstance(recv.value, ast.Name):
+                name = recv.value.id
+                ty = env.get(name)
+                if not (isinstance(ty, tuple) and ty[0] == "Dict" and isinstance(ty[2], tuple) and ty[2][0] == "List"):
+                    raise Untranslatable("statement %s" % u[:70])
+                cur, _ = self.ex(recv, env, binds)                    # d[k]: KeyError when absent
+                k, _ = self.ex(recv.slice, env, binds, ty[1])
+                v, _ = self.ex(st.value.args[0], env, binds, ty[2][1])
+                return let(name, ty, "dictSet %s %s (%s ++ [%s])" % (name, k, cur, v))
+            if m == "write" and isinstance(recv, ast.Name) and env.get(recv.id) == W_STR and decl.get(recv.id) == W_STR and recv.id == self.file_var:
+                v, _ = self.ex(st.value.args[0], env, binds, W_STR)
+                return let(recv.id, W_STR, "(%s ++ %s)" % (recv.id, v))
+        if isinstance(st, ast.Try):
+            # try: x = D[k]  except KeyError: x = E
+            if (len(st.body) == 1 and isinstance(st.body[0], ast.Assign) and len(st.body[0].targets) == 1 and isinstance(st.body[0].targets[0], ast.Name)
+                    and isinstance(st.body[0].value, ast.Subscript) and len(st.handlers) == 1 and not st.orelse and not st.finalbody
+                    and isinstance(st.handlers[0].type, ast.Name) and st.handlers[0].type.id == "KeyError"
+                    and len(st.handlers[0].body) == 1 and isinstance(st.handlers[0].body[0], ast.Assign)
+                    and len(st.handlers[0].body[0].targets) == 1 and ast.unparse(st.handlers[0].body[0].targets[0]) == st.body[0].targets[0].id):
+                name = st.body[0].targets[0].id
+                ty = decl.get(name, env.get(name))
+                tb = []
+                v, tv = self.ex(st.body[0].value, env, tb, ty)
+                if len(tb) != 1 or tb[0][0] != v or not (tb[0][1].startswith("edgeTagsPy ") or tb[0][1].startswith("dictGet ")):
+                    raise Untranslatable("try body %s" % ast.unparse(st.body[0]))
+                hb = []
+                h, _ = self.ex(st.handlers[0].body[0].value, env, hb, tv)
+                if hb:
+                    raise Untranslatable("except body %s" % ast.unparse(st.handlers[0].body[0]))
+                return let(name, tv, "(match %s with | some %s => %s | none => %s)" % (tb[0][1], v, v, h))
+            raise Untranslatable("statement %s" % u[:70])
+        if isinstance(st, ast.If):
+            t = st.test
+            # `if X is None: X = E` for an optional parameter
+            if (isinstance(t, ast.Compare) and len(t.ops) == 1 and isinstance(t.ops[0], ast.Is) and isinstance(t.left, ast.Name)
+                    and isinstance(t.comparators[0], ast.Constant) and t.comparators[0].value is None
+                    and isinstance(env.get(t.left.id), tuple) and env[t.left.id][0] == "Opt"):
+                name = t.left.id
+                body = [x for x in st.body if not self.skip(x)]
+                if not (len(body) == 1 and not st.orelse and isinstance(body[0], ast.Assign) and ast.unparse(body[0].targets[0]) == name):
+                    raise Untranslatable("statement %s" % u[:70])
+                ty = env[name][1]
+                v, _ = self.ex(body[0].value, env, binds, ty)
+                if binds:
+                    raise Untranslatable("default of %s can raise" % name)
+                env2 = dict(env)
+                env2[name] = ty
+                w = self.fresh()
+                return "%slet %s : %s := (match %s with | none => %s | some %s => %s)\n%s" % (
+                    pad, name, _wt(ty), name, v, w, w, self.blk(rest, env2, ind, fall, decl))
+            name = self.single_assign(st, env)
+            if name is not None:
+                ty = decl.get(name, env.get(name))
+                if ty is not None:
+                    try:
+                        k0 = self.k
+                        kind, v = self.ite_value(st, name, ty, env, binds)
+                        if kind == "opt":
+                            self.check_name(name)
+                            if name in env and env[name] != ty:
+                                raise Untranslatable("%s changes its type" % name)
+                            env2 = dict(env)
+                            env2[name] = ty
+                            return self.wrap(binds, pad, lambda p: "%smatch %s with\n%s| none => none\n%s| some %s =>\n%s" % (
+                                p, v, p, p, name, self.blk(rest, env2, ind, fall, decl)))
+                        return let(name, ty, v)
+                    except _NotSimple:
+                        self.k = k0
+                        binds = []
+            if isinstance(t, ast.BoolOp):
+                later = []
+                for x in t.values[1:]:
+                    self.cond(x, env, later)
+                if later:
+                    raise Untranslatable("an operand of `%s` that can raise is evaluated conditionally" % ast.unparse(t))
+            c = self.cond(t, env, binds)
+            return self.wrap(binds, pad, lambda p: "%sif %s then\n%s\n%selse\n%s" % (
+                p, c, self.blk(st.body + rest, env, ind + 2, fall, decl), p, self.blk(st.orelse + rest, env, ind + 2, fall, decl)))
+        if isinstance(st, ast.For):
+            return self.loop(st, rest, env, ind, fall, decl)
+        raise Untranslatable("statement %s" % u[:70])
+
+    def loop(self, st, rest, env, ind, fall, decl):
+        pad = " " * ind
+        if st.orelse:
+            raise Untranslatable("loop %s" % ast.unparse(st)[:60])
+        self.nloops += 1
+        fname = "%sFor%d" % (self.lean_name, self.nloops)
+        binds = []
+        iter_term, ity = self.ex(st.iter, env, binds)
+        if not (isinstance(ity, tuple) and ity[0] == "List"):
+            raise Untranslatable("loop over %s" % ast.unparse(st.iter))
+        vty = ity[1]
+        if isinstance(st.target, ast.Name):
+            targets = [(st.target.id, vty, "it")]
+        elif isinstance(st.target, ast.Tuple) and all(isinstance(x, ast.Name) for x in st.target.elts) \
+                and isinstance(vty, tuple) and vty[0] == "Tup" and len(vty[1]) == len(st.target.elts):
+            targets = [(x.id, vty[1][i], _tup_proj("it", i, len(vty[1]))) for i, x in enumerate(st.target.elts)]
+        else:
+            raise Untranslatable("loop target %s" % ast.unparse(st.target))
+        tnames = [t[0] for t in targets]
+        for n in tnames:
+            self.check_name(n)
+        carried = [v for v in self.assigned(st.body) if v in env and v not in tnames]
+        if not carried:
+            raise Untranslatable("loop %s assigns nothing" % fname)
+        if any(v in tnames for v in self.assigned(st.body)):
+            raise Untranslatable("the loop variable is assigned in %s" % fname)
+        # a loop over the items of a dict may only replace the value of the current key
+        if isinstance(st.iter, ast.Call) and isinstance(st.iter.func, ast.Attribute) and st.iter.func.attr == "items" \
+                and isinstance(st.iter.func.value, ast.Name) and st.iter.func.value.id in carried:
+            dname = st.iter.func.value.id
+            for n in ast.walk(ast.Module(body=st.body, type_ignores=[])):
+                if isinstance(n, ast.Name) and n.id == tnames[1]:
+                    raise Untranslatable("the value of an item of %s is used while %s is assigned" % (dname, dname))
+                if isinstance(n, ast.Subscript) and isinstance(n.value, ast.Name) and n.value.id == dname and isinstance(n.ctx, (ast.Store, ast.Del)) \
+                        and ast.unparse(n.slice) != tnames[0]:
+                    raise Untranslatable("%s changes its keys while its items are visited" % dname)
+                if isinstance(n, ast.For) and n is not st:
+                    raise Untranslatable("nested loop while the items of %s are visited" % dname)
+        free = []
+        for n in ast.walk(ast.Module(body=st.body, type_ignores=[])):
+            if isinstance(n, ast.Name) and n.id in env and n.id not in carried and n.id not in tnames and n.id not in free:
+                free.append(n.id)
+        free.sort(key=lambda v: list(env).index(v))
+
+        def proj(i):
+            return "st" if len(carried) == 1 else _tup_proj("st", i, len(carried))
+
+        def pack(e, ind2):
+            for v in carried:
+                if e.get(v) != env[v]:
+                    raise Untranslatable("%s changes its type in the loop" % v)
+            return " " * ind2 + "some " + (carried[0] if len(carried) == 1 else "(" + ", ".join(carried) + ")")
+        benv = {v: env[v] for v in free + carried}
+        for n, ty, _ in targets:
+            benv[n] = ty
+        body = self.blk(st.body, benv, 2, pack, decl)
+        sty = " × ".join(_wt_atom(env[v]) for v in carried)
+        self.defs.append((fname, "def %s %s%s(st : %s) (it : %s) : Option (%s) :=\n%s\n%s\n%s" % (
+            fname, self.ctx_params(), "".join("(%s : %s) " % (v, _wt(env[v])) for v in free), sty, _wt(vty), sty,
+            "\n".join("  let %s : %s := %s" % (v, _wt(env[v]), proj(i)) for i, v in enumerate(carried)),
+            "\n".join("  let %s : %s := %s" % (n, _wt(ty), p) for n, ty, p in targets), body)))
+        pat = carried[0] if len(carried) == 1 else "(" + ", ".join(carried) + ")"
+        env2 = {k: v for k, v in env.items() if k not in tnames}
+        call = " ".join([fname] + [v for v, _ in self.ctx] + free)
+        return self.wrap(binds, pad, lambda p: "%smatch %s.foldlM (%s) %s with\n%s| none => none\n%s| some %s =>\n%s" % (
+            p, iter_term, call, pat, p, p, pat, self.blk(rest, env2, ind, fall, decl)))
+
+    def function(self, fn, env, decl, ret_type, file_var=None, final=None):
+        self.ret_type = ret_type
+        self.file_var = file_var
+
+        def fall(e, ind):
+            if final is None:
+                raise Untranslatable("%s can end without a return" % self.fname)
+            return final(e, ind)
+        return self.blk(fn.body, env, 2, fall, decl)
+
+
+class _NotSimple(Exception):
+    pass
+
+
+def _wg_params(fn, want):
+    args = [a.arg for a in fn.args.args]
+    if args != want or fn.args.vararg or fn.args.kwarg or fn.args.kwonlyargs or fn.args.posonlyargs:
+        raise Untranslatable("%s signature %s" % (fn.name, args))
+    d = [None] * (len(args) - len(fn.args.defaults)) + list(fn.args.defaults)
+    return d
+
+
+def _wg_final(env, ind):
+    """write_gfa returns nothing: the result is what the file holds"""
+    if env.get("f") != W_STR:
+        raise Untranslatable("write_gfa: no file was opened")
+    return " " * ind + "some f"
+
+
+def gen_write_gfa():
+    try:
+        return _gen_write_gfa()
+    except (Untranslatable, SyntaxError, OSError, KeyError, IndexError):
+        raise
+    except Exception as e:  # a shape the translator did not foresee is never an alarm
+        raise Untranslatable("translator: %s: %s" % (type(e).__name__, e))
+
+
+def _gen_write_gfa():
+    _, src = src_of("gaftools/gfa.py")
+    mod = ast.parse(src)
+    # `self[n]` must be `self.nodes[n]` (None instead of KeyError: the attribute access that follows raises in both cases)
+    gi = find_func(mod, "__getitem__", cls="GFA")
+    gib = [ast.unparse(x) for x in gi.body if not (isinstance(x, ast.Expr) and isinstance(x.value, ast.Constant))]
+    key = gi.args.args[1].arg if len(gi.args.args) == 2 else "?"
+    if gib != ["try:\n    return self.nodes[%s]\nexcept KeyError:\n    return None" % key]:
+        raise Untranslatable("GFA.__getitem__ is not the lookup in self.nodes")
+    # ---- Node.to_gfa_line
+    tg = find_func(mod, "to_gfa_line", cls="Node")
+    d = _wg_params(tg, ["self", "with_seq"])
+    if not (isinstance(d[1], ast.Constant) and isinstance(d[1].value, bool)):
+        raise Untranslatable("default of with_seq")
+    with_seq_default = "true" if d[1].value else "false"
+    methods = {("Node", "to_gfa_line"): ("toGfaLine", [W_BOOL], [with_seq_default], W_STR)}
+    t1 = _WgTr(mod, "to_gfa_line", "toGfaLine", [("self", "Node")], W_NODE, {})
+    b1 = t1.function(tg, {"with_seq": W_BOOL}, {"seq": W_STR, "tags": ("List", W_STR)}, W_STR)
+    # ---- GFA.sort_bo_no
+    ctx = [("g", "Graph"), ("tagv", "String → String → Option Int")]
+    sb = find_func(mod, "sort_bo_no", cls="GFA")
+    _wg_params(sb, ["self", "set_of_nodes"])
+    methods[("GFA", "sort_bo_no")] = ("sortBoNo", [("List", W_STRING)], [None], ("List", W_STRING))
+    t2 = _WgTr(mod, "sort_bo_no", "sortBoNo", ctx, W_GFA, {})
+    b2 = t2.function(sb, {"set_of_nodes": ("List", W_STRING)},
+                     {"separate_bubbles": ("Dict", W_INT, ("List", W_STRING)), "bo_ids": ("List", W_INT), "sorted_set_of_nodes": ("List", W_STRING)},
+                     ("List", W_STRING))
+    # ---- GFA.write_gfa
+    wg = find_func(mod, "write_gfa", cls="GFA")
+    d = _wg_params(wg, ["self", "set_of_nodes", "output_file", "append", "order_bo"])
+    if [ast.unparse(x) if x is not None else None for x in d[1:]] != ["None", ast.unparse(d[2]) if d[2] is not None else None, "False", "False"]:
+        raise Untranslatable("defaults of write_gfa")
+    t3 = _WgTr(mod, "write_gfa", "writeGfa", ctx, W_GFA, methods, out_name="output_file")
+    b3 = t3.function(wg, {"set_of_nodes": ("Opt", ("List", W_STRING)), "append": W_BOOL, "order_bo": W_BOOL},
+                     {"f": W_STR, "edges": ("List", W_STR), "tags": ("List", W_PYV), "overlap": W_STR, "edge": W_STR, "line": W_STR,
+                      "sorted_set_of_nodes": ("List", W_STRING)},
+                     None, file_var="f", final=_wg_final)
+    head = ("generated by harness/translate.py from gaftools/gfa.py : Node.to_gfa_line, GFA.sort_bo_no, GFA.write_gfa, statement by statement\n"
+            "    (`none` = the Python raises; `g` = the graph object: `self.nodes` / `self.edge_tags`, sets in the enumeration of the model;\n"
+            "    `tagv K n` = the integer `self.nodes[n].tags[K][1]` as `order_gfa` stores it; `old` = the content of `output_file` before the\n"
+            "    call, `none` when it does not exist; the result of `writeGfa` = its content afterwards) — do not edit")
+    return (WRITE_GFA_PRELUDE % head
+            + "".join(dd + "\n\n" for _, dd in t1.defs)
+            + "/-- `Node.to_gfa_line(with_seq)` -/\ndef toGfaLine (self : Node) (with_seq : Bool) : Option Str :=\n" + b1 + "\n\n"
+            + "".join(dd + "\n\n" for _, dd in t2.defs)
+            + "/-- `GFA.sort_bo_no(set_of_nodes)` -/\ndef sortBoNo %s(set_of_nodes : List String) : Option (List String) :=\n" % t2.ctx_params() + b2 + "\n\n"
+            + "".join(dd + "\n\n" for _, dd in t3.defs)
+            + "/-- `GFA.write_gfa(set_of_nodes, output_file, append, order_bo)` -/\n"
+            + "def writeGfa %s(set_of_nodes : Option (List String)) (old : Option Str) (append order_bo : Bool) : Option Str :=\n" % t3.ctx_params()
+            + b3 + "\nend Gaftools.Gen.WriteGfa\n")
+
+
+GENERATORS["WriteGfa"] = gen_write_gfa
+
+
+# ---------------------------------------------------------------------------------------------------------
+# gfa.Node.__init__, GFA.__init__, GFA.add_node, GFA.remove_node, GFA.read_graph: every statement, in source order, as a
+# state-passing Lean function on the token level of Model/Gfa.lean (C07, C14, C15; the contig tables of C15Extra / GfaText).
+# `add_edge` / `remove_edge` are Gen/Edges.lean (called through `Gfa.addEdge` / `Gfa.removeEdge`, not re-translated).
+
+_GM_RESERVED = {"σ", "err", "nd", "st", "lines", "fun", "let", "if", "then", "else", "match", "with", "at", "from", "have", "show", "do", "end",
+                "open", "in", "def", "by", "where", "structure", "instance", "theorem", "Type", "Prop", "true", "false", "some", "none",
+                "forE", "nodesSet", "nodeMod", "nodesDel", "tagsHas", "tagsGet", "tagOk", "ctgGet", "ctgSet", "c2nAppend", "callAddEdge",
+                "newNode", "addNode", "removeNode", "readGraph", "initSt", "load", "decide", "pyInt", "removeEdge", "addEdge", "tagSet",
+                "Tag", "Node", "Graph", "St", "Exc", "TLine", "ETags", "Adj"}
+
+_GM_LEAN = {"String": "String", "Nat": "Nat", "Int": "Int", "Bool": "Bool", "Side": "Bool", "Orient": "Bool", "TagList": "List Tag",
+            "TagTok": "Tag", "TagParts": "Tag", "TagVal": "Tag", "Node": "Node", "TagDict": "List Tag", "Adj": "Adj", "AdjList": "List Adj",
+            "TLine": "TLine", "TLineS": "TLine", "TLineL": "TLine", "FieldsS": "SegLine", "FieldsL": "LinkLine", "LHead": "LinkLine",
+            "LHeadInt": "LinkLine", "ETags": "ETags", "OptInt": "Option Int", "OvRaw": "LinkLine", "OvDigits": "LinkLine"}
+
+# the slots of `Node`: those the model's `Node` stores (Lean field, type) and those it derives (`seq_len` is `seq.length`,
+# `visited` lives in the search state of Model/Algo.lean)
+_GM_NODE_FIELDS = {"id": ("id", "String"), "seq": ("seq", "String"), "start": ("startAdj", "AdjList"), "end": ("endAdj", "AdjList"),
+                   "tags": ("tags", "TagDict")}
+_GM_NODE_GHOST = {"seq_len": "Nat", "visited": "Bool"}
+_GM_EXC = {"ValueError": "valueError", "AssertionError": "assertionError", "KeyError": "keyError", "AttributeError": "attributeError"}
+
+
+def _gm_lt(t):
+    if isinstance(t, tuple) and t[0] == "List":
+        s = _gm_lt(t[1])
+        return "List %s" % (s if " " not in s else "(%s)" % s)
+    if t in _GM_LEAN:
+        return _GM_LEAN[t]
+    raise Untranslatable("type %s" % (t,))
+
+
+def _gm_str(v):
+    for c in v:
+        if not (32 <= ord(c) < 127) and c not in "\t\n":
+            raise Untranslatable("character %r in a string constant" % c)
+    return '"%s"' % v.replace("\\", "\\\\").replace('"', '\\"').replace("\t", "\\t").replace("\n", "\\n")
+
+
+def _gm_char(c):
+    if len(c) != 1 or not (32 <= ord(c) < 127) or c in "'\\":
+        raise Untranslatable("character constant %r" % c)
+    return "'%s'" % c
+
+
+def _gm_body(fn):
+    return [st for st in fn.body if not (isinstance(st, ast.Expr) and isinstance(st.value, ast.Constant))]
+
+
+def _gm_is_self(e, attr=None):
+    """`self` (attr None) or `self.<attr>`"""
+    if attr is None:
+        return isinstance(e, ast.Name) and e.id == "self"
+    return isinstance(e, ast.Attribute) and isinstance(e.value, ast.Name) and e.value.id == "self" and e.attr == attr
+
+
+class _GM:
+    """typed translation of the statements of one method of `GFA` into a Lean term of type `Except Exc _`.  `self` is the Lean
+    variable `σ : St`, re-bound whenever the object is mutated; every Python variable is a Lean variable of the same name, re-bound
+    by `let` on assignment; a sub-expression that can raise (`self[k].attr` on a missing key, `self.nodes[k]`, `d[k]`, `int(s)`)
+    is bound by a `match … with | none => .error … | some v =>` in evaluation order."""
+
+    def __init__(self, lname, params):
+        self.lname = lname
+        self.params = params            # python parameter -> type
+        self.k = 0
+        self.loops = 0
+        self.defs = []
+        self.ghost = {}                 # (variable, slot) -> lean term over the parameters
+        self.files = set()              # variables that hold the opened file
+        self.reassigned = set()
+
+    # ---- helpers
+    def fresh(self):
+        self.k += 1
+        return "v%d" % self.k
+
+    def bind(self, term, exc, binds):
+        for v, t, x in binds:
+            if t == term and x == exc:
+                return v
+        v = self.fresh()
+        binds.append((v, term, exc))
+        return v
+
+    @staticmethod
+    def wrap(binds, pad, inner):
+        out = []
+        for v, t, x in binds:
+            out.append("%smatch %s with\n%s| none => .error .%s\n%s| some %s =>" % (pad, t, pad, x, pad, v))
+        return "\n".join(out + [inner])
+
+    def check_name(self, n):
+        if n in _GM_RESERVED or n.startswith("_") or re.fullmatch(r"v\d+", n) or not re.fullmatch(r"[A-Za-z][A-Za-z0-9_]*", n):
+            raise Untranslatable("variable name %s" % n)
+        return n
+
+    def node_item(self, e, env, binds):
+        """`self[K]` (GFA.__getitem__: None for an unknown key, so the attribute access that follows raises AttributeError) or
+        `self.nodes[K]` (KeyError) -> (bound variable, lean term of K)"""
+        if isinstance(e, ast.Subscript) and _gm_is_self(e.value):
+            k, _ = self.ex(e.slice, env, binds, "String")
+            return self.bind("σ.g.find %s" % k, "attributeError", binds), k
+        if isinstance(e, ast.Subscript) and _gm_is_self(e.value, "nodes"):
+            k, _ = self.ex(e.slice, env, binds, "String")
+            return self.bind("σ.g.find %s" % k, "keyError", binds), k
+        return None
+
+    # ---- expressions
+    def ex(self, e, env, binds, expect=None):
+        t, ty = self._ex(e, env, binds, expect)
+        if expect is not None and ty != expect:
+            if expect == "OptInt" and ty == "Int":
+                return "(some %s)" % t, expect
+            raise Untranslatable("a value of type %s where %s is needed (%s)" % (ty, expect, ast.unparse(e)[:60]))
+        return t, ty
+
+    def _ex(self, e, env, binds, expect):
+        u = ast.unparse(e)
+        if isinstance(e, ast.Constant):
+            v = e.value
+            if isinstance(v, str):
+                return _gm_str(v), "String"
+            if isinstance(v, int) and not isinstance(v, bool):
+                if expect == "Side":
+                    if v in (0, 1):
+                        return ("true" if v == 1 else "false"), "Side"
+                    raise Untranslatable("side constant %d" % v)
+                if expect == "Int":
+                    return "(%d : Int)" % v, "Int"
+                if v >= 0:
+                    return str(v), "Nat"
+            raise Untranslatable("constant %s" % u)
+        if isinstance(e, ast.Name):
+            if e.id in env:
+                return e.id, env[e.id]
+            raise Untranslatable("name %s" % e.id)
+        if isinstance(e, ast.Attribute):
+            ni = self.node_item(e.value, env, binds)
+            if ni is not None:
+                o, ty = ni[0], "Node"
+            else:
+                o, ty = self.ex(e.value, env, binds)
+            if ty == "Node" and e.attr in _GM_NODE_FIELDS:
+                return "%s.%s" % (o, _GM_NODE_FIELDS[e.attr][0]), _GM_NODE_FIELDS[e.attr][1]
+            raise Untranslatable("attribute %s" % u)
+        if isinstance(e, ast.Subscript):
+            sl = e.slice
+            if _gm_is_self(e.value, "contigs"):
+                # a `defaultdict(lambda: None)` (checked in GFA.__init__): an absent key reads as None
+                k, _ = self.ex(sl, env, binds, "String")
+                return "(ctgGet σ.contigs %s)" % k, "OptInt"
+            if _gm_is_self(e.value) or _gm_is_self(e.value, "nodes"):
+                raise Untranslatable("a node object used as a value: %s" % u)
+            o, ty = self.ex(e.value, env, binds)
+            idx = sl.value if isinstance(sl, ast.Constant) and isinstance(sl.value, int) and not isinstance(sl.value, bool) else None
+
+            def bounds(s):
+                def c(x):
+                    if x is None:
+                        return None
+                    if isinstance(x, ast.Constant) and isinstance(x.value, int):
+                        return x.value
+                    if isinstance(x, ast.UnaryOp) and isinstance(x.op, ast.USub) and isinstance(x.operand, ast.Constant):
+                        return -x.operand.value
+                    raise Untranslatable("slice %s" % u)
+                if s.step is not None:
+                    raise Untranslatable("slice %s" % u)
+                return c(s.lower), c(s.upper)
+            if ty == "TagDict":
+                k, _ = self.ex(sl, env, binds, "String")
+                return self.bind("tagsGet %s %s" % (o, k), "keyError", binds), "TagVal"
+            if ty == "TagVal" and idx in (0, 1):        # the value of a tags entry is the pair (type, value)
+                return "%s.%s" % (o, ("ty", "val")[idx]), "String"
+            if ty == "TagParts" and idx in (0, 1, 2):   # [name, type, value]
+                return "%s.%s" % (o, ("name", "ty", "val")[idx]), "String"
+            if ty == "Adj" and idx in (0, 1, 2):        # (neighbour, side of the neighbour, overlap)
+                return "%s.%s" % (o, ("1", "2.1", "2.2")[idx]), ("String", "Side", "Nat")[idx]
+            if ty == "FieldsS":                         # ["S", id, sequence, tag …]
+                if idx in (1, 2):
+                    return "%s.%s" % (o, ("id", "seq")[idx - 1]), "String"
+                if isinstance(sl, ast.Slice) and bounds(sl) == (3, None):
+                    return "%s.tags" % o, "TagList"
+            if ty == "FieldsL" and isinstance(sl, ast.Slice):   # ["L", a, ±, b, ±, overlap, tag …]
+                if bounds(sl) == (6, None):
+                    return "(ETags.fields %s.tags)" % o, "ETags"
+                if bounds(sl) == (1, 6):
+                    return o, "LHead"
+            if ty in ("LHead", "LHeadInt") and idx in (0, 1, 2, 3):
+                return "%s.%s" % (o, ("a", "da", "b", "db")[idx]), ("String", "Orient", "String", "Orient")[idx]
+            if ty == "LHead" and idx == 4:
+                return o, "OvRaw"
+            if ty == "LHeadInt" and idx == 4:
+                return "%s.ov" % o, "Nat"
+            if ty == "OvRaw" and isinstance(sl, ast.Slice) and bounds(sl) == (None, -1):
+                return o, "OvDigits"
+            raise Untranslatable("subscript %s" % u)
+        if isinstance(e, ast.ListComp):
+            g = e.generators[0] if len(e.generators) == 1 else None
+            if (g is not None and not g.ifs and not g.is_async and isinstance(g.target, ast.Name) and isinstance(e.elt, ast.Name)
+                    and e.elt.id == g.target.id):
+                o, ty = self.ex(g.iter, env, binds)
+                if ty == "AdjList":                      # a snapshot of the set
+                    return o, ty
+            raise Untranslatable("comprehension %s" % u)
+        if isinstance(e, ast.List):
+            if not e.elts and expect in ("TagList",) or (not e.elts and isinstance(expect, tuple) and expect[0] == "List"):
+                return "[]", expect
+            if expect == "ETags" and len(e.elts) == 1 and isinstance(e.elts[0], ast.Constant) and e.elts[0].value == 0 \
+                    and not isinstance(e.elts[0].value, bool):
+                return "ETags.zero", "ETags"
+            raise Untranslatable("list display %s" % u)
+        if isinstance(e, ast.BinOp) and type(e.op) in (ast.Add, ast.Sub):
+            a, ta = self.ex(e.left, env, binds, expect if expect in ("Nat", "Int") else None)
+            b, _ = self.ex(e.right, env, binds, ta)
+            if ta == "Int" or (ta == "Nat" and isinstance(e.op, ast.Add)):      # a difference of naturals may be negative
+                return "(%s %s %s)" % (a, "+" if isinstance(e.op, ast.Add) else "-", b), ta
+            raise Untranslatable("arithmetic %s" % u)
+        if isinstance(e, ast.BoolOp):
+            parts = []
+            for i, x in enumerate(e.values):
+                n = len(binds)
+                parts.append(self.ex(x, env, binds, "Bool")[0])
+                if i > 0 and len(binds) > n:
+                    raise Untranslatable("an operand of %s that can raise is evaluated conditionally" % u)
+            return "(" + (" && " if isinstance(e.op, ast.And) else " || ").join(parts) + ")", "Bool"
+        if isinstance(e, ast.UnaryOp) and isinstance(e.op, ast.Not):
+            a, ta = self.ex(e.operand, env, binds)
+            if ta == "Bool":
+                return "(!%s)" % a, "Bool"
+            if ta == "TagList":
+                return "%s.isEmpty" % a, "Bool"
+            if ta == "ETags":
+                return "(!%s.truthy)" % a, "Bool"
+            raise Untranslatable("truth value of %s" % ast.unparse(e.operand))
+        if isinstance(e, ast.Compare) and len(e.ops) == 1:
+            l, r, op = e.left, e.comparators[0], type(e.ops[0])
+            if op in (ast.In, ast.NotIn):
+                a, _ = self.ex(l, env, binds, "String")      # Python evaluates the left operand first
+                if _gm_is_self(r):                           # GFA.__contains__
+                    c = "(σ.g.has %s)" % a
+                else:
+                    b, tb = self.ex(r, env, binds)
+                    if tb != "TagDict":
+                        raise Untranslatable("membership in %s" % ast.unparse(r))
+                    c = "(tagsHas %s %s)" % (b, a)
+                return (c if op is ast.In else "(!%s)" % c), "Bool"
+            if op in (ast.Is, ast.IsNot) and isinstance(r, ast.Constant) and r.value is None:
+                a, ta = self.ex(l, env, binds)
+                if ta == "OptInt":
+                    return ("%s.isNone" if op is ast.Is else "%s.isSome") % a, "Bool"
+                raise Untranslatable("test %s" % u)
+            a, ta = self.ex(l, env, binds)
+            b, _ = self.ex(r, env, binds, ta)
+            if op in (ast.Eq, ast.NotEq) and ta in ("String", "Nat", "Int", "Bool", "OptInt"):
+                return "(%s %s %s)" % (a, "==" if op is ast.Eq else "!=", b), "Bool"
+            sym = {ast.Lt: "<", ast.Gt: ">", ast.LtE: "≤", ast.GtE: "≥"}.get(op)
+            if sym and ta in ("Nat", "Int"):
+                return "decide (%s %s %s)" % (a, sym, b), "Bool"
+            raise Untranslatable("comparison %s" % u)
+        if isinstance(e, ast.Call) and not e.keywords:
+            f = ast.unparse(e.func)
+            if f == "str" and len(e.args) == 1:
+                a, ta = self.ex(e.args[0], env, binds)
+                if ta == "String":
+                    return a, ta
+            if f == "len" and len(e.args) == 1:
+                a, ta = self.ex(e.args[0], env, binds)
+                if ta == "String":
+                    return "%s.length" % a, "Nat"
+                if ta == "FieldsS":          # the three fixed fields and the tags
+                    return "(3 + %s.tags.length)" % a, "Nat"
+                if ta == "FieldsL":
+                    return "(6 + %s.tags.length)" % a, "Nat"
+                if isinstance(ta, tuple) or ta in ("TagList", "AdjList"):
+                    return "%s.length" % a, "Nat"
+            if f == "int" and len(e.args) == 1:
+                a, ta = self.ex(e.args[0], env, binds)
+                if ta == "String":
+                    return self.bind("Gaftools.TextLayer.pyInt %s.toList" % a, "valueError", binds), "Int"
+                if ta == "OvDigits":         # token level: the number in front of the last character of the overlap field
+                    return "%s.ov" % a, "Nat"
+            if f == "is_correct_tag" and len(e.args) == 1:
+                a, ta = self.ex(e.args[0], env, binds)
+                if ta == "TagTok":
+                    return "(tagOk %s)" % a, "Bool"
+            if isinstance(e.func, ast.Attribute):
+                m = e.func.attr
+                if m == "startswith" and len(e.args) == 1 and isinstance(e.args[0], ast.Constant) and isinstance(e.args[0].value, str):
+                    a, ta = self.ex(e.func.value, env, binds)
+                    if ta == "TLine" and len(e.args[0].value) == 1:
+                        return "(%s.first == some %s)" % (a, _gm_char(e.args[0].value)), "Bool"
+                if m == "split" and len(e.args) == 2 and ast.unparse(e.args[0]) == "':'" and ast.unparse(e.args[1]) == "2":
+                    a, ta = self.ex(e.func.value, env, binds)
+                    if ta == "TagTok":       # token level: a tag IS its three parts
+                        return a, "TagParts"
+                if m == "split" and len(e.args) == 1 and ast.unparse(e.args[0]) == "'\\t'" and isinstance(e.func.value, ast.Call) \
+                        and isinstance(e.func.value.func, ast.Attribute) and e.func.value.func.attr == "strip" and not e.func.value.args \
+                        and not e.func.value.keywords:
+                    a, ta = self.ex(e.func.value.func.value, env, binds)
+                    if ta == "TLineS":
+                        return "%s.seg" % a, "FieldsS"
+                    if ta == "TLineL":
+                        return "%s.link" % a, "FieldsL"
+        raise Untranslatable("expression %s" % u)
+
+    # ---- statements
+    def assigned(self, stmts):
+        out = []
+
+        def add(n):
+            if n not in out:
+                out.append(n)
+        for st in stmts:
+            if isinstance(st, ast.Assign):
+                for t in st.targets:
+                    while isinstance(t, (ast.Subscript, ast.Attribute)):
+                        t = t.value
+                    if isinstance(t, ast.Name):
+                        add(t.id)
+            elif isinstance(st, ast.AugAssign):
+                raise Untranslatable("statement %s" % ast.unparse(st)[:70])
+            elif isinstance(st, ast.Expr) and isinstance(st.value, ast.Call) and isinstance(st.value.func, ast.Attribute) \
+                    and st.value.func.attr == "append" and isinstance(st.value.func.value, ast.Name):
+                add(st.value.func.value.id)
+            elif isinstance(st, ast.If):
+                for n in self.assigned(st.body) + self.assigned(st.orelse):
+                    add(n)
+            elif isinstance(st, ast.For):
+                for n in self.assigned(st.body) + self.assigned(st.orelse):
+                    add(n)
+            elif isinstance(st, ast.Try):
+                for n in self.assigned(st.body):
+                    add(n)
+        return out
+
+    def plain_assigns(self, stmts, env):
+        """[(name, value)] if the statements only assign existing local names"""
+        out = []
+        for st in stmts:
+            if not (isinstance(st, ast.Assign) and len(st.targets) == 1 and isinstance(st.targets[0], ast.Name) and st.targets[0].id in env):
+                return None
+            out.append((st.targets[0].id, st.value))
+        return out
+
+    def io_only(self, st):
+        """a statement of the file-opening prologue / epilogue: it mentions only the path, the modules used to open it and the
+        opened file, and assigns nothing but the opened file"""
+        loads = {n.id for n in ast.walk(st) if isinstance(n, ast.Name) and not isinstance(n.ctx, ast.Store)}
+        if not loads <= (self.tracked | self.files):
+            return False
+        for n in ast.walk(st):
+            if isinstance(n, (ast.AugAssign, ast.AnnAssign, ast.NamedExpr, ast.For, ast.While, ast.Delete)):
+                return False
+            if isinstance(n, ast.Assign) and not (len(n.targets) == 1 and isinstance(n.targets[0], ast.Name) and n.targets[0].id not in self.params
+                                                  and isinstance(n.value, ast.Call) and ast.unparse(n.value.func) in ("open", "gzip.open")):
+                return False
+        return True
+
+    def blk(self, stmts, env, ind, fall):
+        pad = " " * ind
+        if not stmts:
+            return fall(env, ind)
+        st, rest = stmts[0], stmts[1:]
+        u = ast.unparse(st)
+        if (isinstance(st, ast.Expr) and isinstance(st.value, ast.Constant)) or isinstance(st, ast.Pass):
+            return self.blk(rest, env, ind, fall)
+        if isinstance(st, ast.Expr) and isinstance(st.value, ast.Call) and ast.unparse(st.value.func).startswith("logging."):
+            return self.blk(rest, env, ind, fall)        # a log line
+        if isinstance(st, ast.Continue):
+            return fall(env, ind)
+        if self.tracked is not None and not isinstance(st, ast.For) and self.io_only(st):
+            for n in ast.walk(st):
+                if isinstance(n, ast.Assign):
+                    self.files.add(n.targets[0].id)
+            return self.blk(rest, env, ind, fall)
+        binds = []
+
+        def cont(env2=None):
+            return self.blk(rest, env if env2 is None else env2, ind, fall)
+
+        def let(name, ty, term):
+            self.check_name(name)
+            env2 = dict(env)
+            env2[name] = ty
+            return self.wrap(binds, pad, "%slet %s : %s := %s\n%s" % (pad, name, _gm_lt(ty), term, cont(env2)))
+
+        def upd(text):
+            return self.wrap(binds, pad, "%slet σ : St := { σ with %s }\n%s" % (pad, text, cont()))
+        if isinstance(st, ast.Raise):
+            if isinstance(st.exc, ast.Call) and isinstance(st.exc.func, ast.Name) and st.exc.func.id in _GM_EXC:
+                return "%s.error .%s" % (pad, _GM_EXC[st.exc.func.id])
+            raise Untranslatable("statement %s" % u[:70])
+        if isinstance(st, ast.Assert):
+            c, _ = self.ex(st.test, env, binds, "Bool")
+            return self.wrap(binds, pad, "%sif %s then\n%s\n%selse\n%s  .error .assertionError" % (pad, c, self.blk(rest, env, ind + 2, fall), pad, pad))
+        if isinstance(st, ast.Try):
+            # `try: … except E: raise E(…)`: the exception passes through with its class
+            for h in st.handlers:
+                if not (isinstance(h.type, ast.Name) and len(h.body) == 1 and isinstance(h.body[0], ast.Raise) and isinstance(h.body[0].exc, ast.Call)
+                        and ast.unparse(h.body[0].exc.func) == h.type.id):
+                    raise Untranslatable("exception handler %s" % ast.unparse(h)[:60])
+            if st.orelse or st.finalbody:
+                raise Untranslatable("statement %s" % u[:70])
+            return self.blk(st.body + rest, env, ind, fall)
+        if isinstance(st, ast.Delete) and len(st.targets) == 1:
+            t = st.targets[0]
+            if isinstance(t, ast.Subscript) and _gm_is_self(t.value, "nodes"):
+                k, _ = self.ex(t.slice, env, binds, "String")
+                return self.wrap(binds, pad, "%sif (σ.g.has %s) then\n%s  let σ : St := { σ with g := nodesDel σ.g %s }\n%s\n%selse\n%s  .error .keyError" % (
+                    pad, k, pad, k, self.blk(rest, env, ind + 2, fall), pad, pad))
+            raise Untranslatable("statement %s" % u[:70])
+        if isinstance(st, ast.Assign) and len(st.targets) == 1:
+            t = st.targets[0]
+            if isinstance(t, ast.Name):
+                self.check_name(t.id)
+                want = None
+                if t.id in env and env[t.id] in ("TagList", "ETags") or t.id in env and isinstance(env[t.id], tuple):
+                    want = env[t.id]
+                if t.id in self.decl:
+                    want = self.decl[t.id]
+                if isinstance(st.value, ast.Call) and isinstance(st.value.func, ast.Name) and st.value.func.id == "Node" and len(st.value.args) == 1 \
+                        and not st.value.keywords:
+                    a, _ = self.ex(st.value.args[0], env, binds, "String")
+                    for slot in _GM_NODE_GHOST:
+                        self.ghost[(t.id, slot)] = self.node_ghost[slot]
+                    self.node_key[t.id] = a
+                    self.node_ind[t.id] = ind
+                    return let(t.id, "Node", "newNode %s" % a)
+                v, ty = self.ex(st.value, env, binds, want)
+                if ty in ("OvRaw", "OvDigits"):
+                    raise Untranslatable("assignment %s" % u)
+                return let(t.id, ty, v)
+            if isinstance(t, ast.Attribute) and isinstance(t.value, ast.Name) and env.get(t.value.id) == "Node":
+                var = t.value.id
+                if var not in self.node_key:
+                    raise Untranslatable("assignment %s" % u)
+                if t.attr in _GM_NODE_GHOST:
+                    v, _ = self.ex(st.value, env, binds, _GM_NODE_GHOST[t.attr])
+                    if binds:
+                        raise Untranslatable("assignment %s" % u)
+                    for n in ast.walk(st.value):
+                        if isinstance(n, ast.Name) and n.id in env and (n.id not in self.params or n.id in self.reassigned):
+                            raise Untranslatable("%s depends on a local variable" % ast.unparse(t))
+                    if ind != self.node_ind.get(var):
+                        raise Untranslatable("%s is assigned conditionally" % ast.unparse(t))
+                    self.ghost[(var, t.attr)] = v
+                    return cont()
+                if t.attr in _GM_NODE_FIELDS and t.attr != "id":
+                    fld, fty = _GM_NODE_FIELDS[t.attr]
+                    if fty != "String":
+                        raise Untranslatable("assignment %s" % u)
+                    v, _ = self.ex(st.value, env, binds, fty)
+                    return let(var, "Node", "{ %s with %s := %s }" % (var, fld, v))
+                raise Untranslatable("assignment %s" % u)
+            if isinstance(t, ast.Subscript) and _gm_is_self(t.value):
+                # GFA.__setitem__: `self.nodes[key] = value` for a Node
+                if not (isinstance(st.value, ast.Name) and env.get(st.value.id) == "Node" and st.value.id in self.node_key):
+                    raise Untranslatable("assignment %s" % u)
+                k, _ = self.ex(t.slice, env, binds, "String")
+                if self.node_key[st.value.id] != k:
+                    raise Untranslatable("a node is stored under a key that is not its id: %s" % u)
+                env2 = dict(env)
+                del env2[st.value.id]                     # the object now lives in the graph; the local name may not be used again
+                return self.wrap(binds, pad, "%slet σ : St := { σ with g := nodesSet σ.g %s %s }\n%s" % (pad, k, st.value.id, cont(env2)))
+            if isinstance(t, ast.Subscript) and _gm_is_self(t.value, "contigs"):
+                k, _ = self.ex(t.slice, env, binds, "String")
+                v, _ = self.ex(st.value, env, binds, "Int")
+                return upd("contigs := ctgSet σ.contigs %s %s" % (k, v))
+            if isinstance(t, ast.Subscript) and isinstance(t.value, ast.Attribute) and t.value.attr == "tags":
+                ni = self.node_item(t.value.value, env, binds)
+                if ni is not None and isinstance(st.value, ast.Tuple) and len(st.value.elts) == 2:
+                    # tags[name] = (type, value)
+                    k, _ = self.ex(t.slice, env, binds, "String")
+                    a, _ = self.ex(st.value.elts[0], env, binds, "String")
+                    b, _ = self.ex(st.value.elts[1], env, binds, "String")
+                    return upd("g := nodeMod σ.g %s (fun nd => { nd with tags := tagSet nd.tags ⟨%s, %s, %s⟩ })" % (ni[1], k, a, b))
+            if isinstance(t, ast.Subscript) and isinstance(t.value, ast.Name) and env.get(t.value.id) == "LHead" \
+                    and isinstance(t.slice, ast.Constant) and t.slice.value == 4:
+                v, ty = self.ex(st.value, env, binds)
+                if ty != "Nat" or v != "%s.ov" % t.value.id or binds:
+                    raise Untranslatable("assignment %s" % u)
+                env2 = dict(env)
+                env2[t.value.id] = "LHeadInt"
+                return cont(env2)
+            raise Untranslatable("assignment %s" % u)
+        if isinstance(st, ast.Expr) and isinstance(st.value, ast.Call) and not st.value.keywords and isinstance(st.value.func, ast.Attribute):
+            c = st.value
+            f, m = c.func.value, c.func.attr
+            if m == "append" and len(c.args) == 1 and isinstance(f, ast.Name) and isinstance(env.get(f.id), tuple):
+                v, _ = self.ex(c.args[0], env, binds, env[f.id][1])
+                return let(f.id, env[f.id], "%s ++ [%s]" % (f.id, v))
+            if m == "append" and len(c.args) == 1 and isinstance(f, ast.Subscript) and _gm_is_self(f.value, "contig_to_nodes"):
+                k, _ = self.ex(f.slice, env, binds, "String")
+                v, _ = self.ex(c.args[0], env, binds, "String")
+                return upd("c2n := c2nAppend σ.c2n %s %s" % (k, v))
+            if _gm_is_self(f) and m == "add_node" and len(c.args) == 3 and not any(isinstance(a, ast.Starred) for a in c.args):
+                a = [self.ex(x, env, binds, ty)[0] for x, ty in zip(c.args, ("String", "String", "TagList"))]
+                return self.wrap(binds, pad, "%smatch addNode σ %s with\n%s| .error err => .error err\n%s| .ok σ =>\n%s" % (pad, " ".join(a), pad, pad, cont()))
+            if _gm_is_self(f) and m == "remove_edge" and len(c.args) == 1 and isinstance(c.args[0], ast.Tuple) and len(c.args[0].elts) == 5:
+                a = [self.ex(x, env, binds, ty)[0] for x, ty in zip(c.args[0].elts, ("String", "Side", "String", "Side", "Nat"))]
+                return upd("g := removeEdge σ.g %s" % " ".join(a))
+            if _gm_is_self(f) and m == "add_edge":
+                args = []
+                for x in c.args:
+                    if isinstance(x, ast.Starred):
+                        o, ty = self.ex(x.value, env, binds)
+                        if ty != "LHeadInt":
+                            raise Untranslatable("call %s" % u[:70])
+                        args += [("%s.a" % o, "String"), ("%s.da" % o, "Orient"), ("%s.b" % o, "String"), ("%s.db" % o, "Orient"), ("%s.ov" % o, "Nat")]
+                    else:
+                        args.append(self.ex(x, env, binds))
+                if [ty for _, ty in args] != ["String", "Orient", "String", "Orient", "Nat", "ETags"]:
+                    raise Untranslatable("call %s" % u[:70])
+                return upd("g := callAddEdge σ.g %s" % " ".join(a for a, _ in args))
+            raise Untranslatable("call %s" % u[:70])
+        if isinstance(st, ast.If):
+            a1 = self.plain_assigns(st.body, env)
+            a2 = self.plain_assigns(st.orelse, env)
+            if a1 is not None and a2 is not None and len(a1) == 1 and len(a2) <= 1 and (not a2 or a2[0][0] == a1[0][0]):
+                name = a1[0][0]
+                c, _ = self.ex(st.test, env, binds, "Bool")
+                n = len(binds)
+                x, tx = self.ex(a1[0][1], env, binds, env[name])
+                y = self.ex(a2[0][1], env, binds, env[name])[0] if a2 else name
+                if len(binds) == n:
+                    return let(name, env[name], "if %s then %s else %s" % (c, x, y))
+                binds = []
+            t = st.test
+            if isinstance(t, ast.BoolOp) and len(t.values) >= 2:
+                # short-circuit evaluation of an operand that can raise: `if a and b: X else: Y` = `if a: (if b: X else: Y) else: Y`
+                first = []
+                self.ex(t.values[0], env, first, "Bool")
+                later = list(first)
+                for x in t.values[1:]:
+                    self.ex(x, env, later, "Bool")
+                if len(later) > len(first):
+                    tail = t.values[1] if len(t.values) == 2 else ast.BoolOp(op=t.op, values=t.values[1:])
+                    if isinstance(t.op, ast.And):
+                        new = ast.If(test=t.values[0], body=[ast.If(test=tail, body=st.body, orelse=st.orelse)], orelse=st.orelse)
+                    else:
+                        new = ast.If(test=t.values[0], body=st.body, orelse=[ast.If(test=tail, body=st.body, orelse=st.orelse)])
+                    return self.blk([new] + rest, env, ind, fall)
+            c, _ = self.ex(t, env, binds, "Bool")
+            env_then = env
+            if (isinstance(t, ast.Call) and isinstance(t.func, ast.Attribute) and t.func.attr == "startswith" and isinstance(t.func.value, ast.Name)
+                    and env.get(t.func.value.id) == "TLine" and ast.unparse(t.args[0]) in ("'S'", "'L'")):
+                # inside the branch the line is known to be an S (an L) record
+                env_then = dict(env)
+                env_then[t.func.value.id] = "TLine" + t.args[0].value
+            return self.wrap(binds, pad, "%sif %s then\n%s\n%selse\n%s" % (
+                pad, c, self.blk(st.body + rest, env_then, ind + 2, fall), pad, self.blk(st.orelse + rest, env, ind + 2, fall)))
+        if isinstance(st, ast.For):
+            return self.loop(st, rest, env, ind, fall)
+        raise Untranslatable("statement %s" % u[:70])
+
+    def loop(self, st, rest, env, ind, fall):
+        pad = " " * ind
+        if st.orelse or not isinstance(st.target, ast.Name) or st.target.id in env:
+            raise Untranslatable("loop %s" % ast.unparse(st)[:60])
+        self.loops += 1
+        fname = "%sLoop%d" % (self.lname, self.loops)
+        var = self.check_name(st.target.id)
+        binds = []
+        if isinstance(st.iter, ast.Name) and st.iter.id in self.files:
+            it, vty = "lines", "TLine"
+            if self.lines_used:
+                raise Untranslatable("the file is read twice")
+            self.lines_used = True
+        else:
+            it, ity = self.ex(st.iter, env, binds)
+            if ity == "AdjList":
+                vty = "Adj"
+            elif ity == "TagList":
+                vty = "TagTok"
+            elif isinstance(ity, tuple) and ity[0] == "List":
+                vty = ity[1]
+            else:
+                raise Untranslatable("loop over %s" % ast.unparse(st.iter))
+        carried = [v for v in self.assigned(st.body) if v in env and v != var]
+        free = []
+        for n in ast.walk(ast.Module(body=st.body, type_ignores=[])):
+            if isinstance(n, ast.Name) and n.id in env and n.id not in carried and n.id != var and n.id not in free:
+                free.append(n.id)
+        free.sort(key=lambda v: list(env).index(v))
+        sty = " × ".join(["St"] + [("(%s)" % _gm_lt(env[v]) if " " in _gm_lt(env[v]) else _gm_lt(env[v])) for v in carried])
+
+        def proj(i):          # component i of St × T1 × … × Tn
+            n = len(carried) + 1
+            if n == 1:
+                return "st"
+            return "st" + ".2" * i + (".1" if i < n - 1 else "")
+
+        def pack(e, ind2):
+            for v in carried:
+                if e.get(v) != env[v]:
+                    raise Untranslatable("%s changes its type in the loop" % v)
+            return " " * ind2 + ".ok " + ("σ" if not carried else "(" + ", ".join(["σ"] + carried) + ")")
+        benv = {v: env[v] for v in free + carried}
+        benv[var] = vty
+        saved = self.k
+        body = self.blk(st.body, benv, 2, pack)
+        unpack = ["  let σ : St := %s" % proj(0)] + ["  let %s : %s := %s" % (v, _gm_lt(env[v]), proj(i + 1)) for i, v in enumerate(carried)]
+        self.defs.append((fname, "/-- the body of `for %s in %s:` of `%s`; the state is the object and the variables the body assigns -/\n"
+                          "def %s %s(st : %s) (%s : %s) : Except Exc (%s) :=\n%s\n%s" % (
+                              var, ast.unparse(st.iter), self.pyname, fname, "".join("(%s : %s) " % (v, _gm_lt(env[v])) for v in free), sty, var,
+                              _gm_lt(vty), sty, "\n".join(unpack), body)))
+        pat = "σ" if not carried else "(" + ", ".join(["σ"] + carried) + ")"
+        return self.wrap(binds, pad, "%smatch forE %s %s (%s) with\n%s| .error err => .error err\n%s| .ok %s =>\n%s" % (
+            pad, it, pat, " ".join([fname] + free), pad, pad, pat, self.blk(rest, env, ind, fall)))
+
+    def function(self, fn, pyname, decl=None, tracked=None, node_ghost=None):
+        self.pyname = pyname
+        self.decl = decl or {}
+        self.tracked = tracked
+        self.node_ghost = node_ghost or {}
+        self.node_key = {}
+        self.node_ind = {}
+        self.lines_used = False
+        for n in ast.walk(fn):
+            if isinstance(n, ast.Assign):
+                for t in n.targets:
+                    if isinstance(t, ast.Name):
+                        self.reassigned.add(t.id)
+            if isinstance(n, (ast.While, ast.With, ast.Return, ast.Global, ast.Nonlocal, ast.Lambda, ast.Yield, ast.YieldFrom, ast.Break)):
+                raise Untranslatable("%s: %s" % (pyname, type(n).__name__))
+        env = dict(self.params)
+        for p in env:
+            self.check_name(p)
+        body = _gm_body(fn)
+        return self.blk(body, env, 2, lambda e, ind: " " * ind + ".ok σ")
+
+
+GFAMUTATE_PRELUDE = """/-- the Python exception classes these methods can end in -/
+inductive Exc where
+  | valueError
+  | assertionError
+  | keyError
+  | attributeError
+deriving Repr, DecidableEq, Inhabited
+
+/-- the `GFA` object: `nodes` and `edge_tags` (= `Graph`), `contigs` (a `defaultdict(lambda: None)`: an absent key reads as `None`;
+    name ↦ rank in insertion order), `contig_to_nodes` (a `defaultdict(list)`) -/
+structure St where
+  g : Graph
+  contigs : List (String × Int)
+  c2n : List (String × List String)
+deriving Repr, DecidableEq, Inhabited
+
+/-- a line of the file on the token level: its first character (`none`: the empty string) and what `line.strip().split("\\t")`
+    gives, read as an S record (`["S", id, sequence, tag …]`) and as an L record (`["L", a, ±, b, ±, overlap, tag …]`; "+" = `true`,
+    `ov` = `int(field[:-1])`) -/
+structure TLine where
+  first : Option Char
+  seg : SegLine
+  link : LinkLine
+deriving Repr, DecidableEq, Inhabited
+
+/-- the value of `e_tags`: the tag fields of the L line, or the marker `[0]` -/
+inductive ETags where
+  | fields (l : List String)
+  | zero
+deriving Repr, DecidableEq, Inhabited
+
+/-- truth value of the list -/
+def ETags.truthy : ETags → Bool
+  | .fields l => !l.isEmpty
+  | .zero => true
+
+/-- as `Graph.edgeTags` holds it (`[0]` = `[]`, see Model/Gfa.lean) -/
+def ETags.enc : ETags → List String
+  | .fields l => l
+  | .zero => []
+
+/-- `for x in xs: body` where the body can raise -/
+def forE {σ α ε : Type} : List α → σ → (σ → α → Except ε σ) → Except ε σ
+  | [], s, _ => .ok s
+  | x :: r, s, body =>
+    match body s x with
+    | .error e => .error e
+    | .ok s' => forE r s' body
+
+/-- `self.nodes[key] = value` -/
+def nodesSet (g : Graph) (key : String) (v : Node) : Graph :=
+  { g with nodes := if g.nodes.any (·.id == key) then g.nodes.map (fun m => if m.id == key then v else m) else g.nodes ++ [v] }
+
+/-- a mutation of the node object stored under `key` -/
+def nodeMod (g : Graph) (key : String) (f : Node → Node) : Graph :=
+  { g with nodes := g.nodes.map (fun m => if m.id == key then f m else m) }
+
+/-- `del self.nodes[key]` -/
+def nodesDel (g : Graph) (key : String) : Graph := { g with nodes := g.nodes.filter (·.id != key) }
+
+/-- `name in tags` / `tags[name]` for the `tags` dict of a node (name ↦ (type, value)) -/
+def tagsHas (d : List Tag) (k : String) : Bool := d.any (·.name == k)
+def tagsGet (d : List Tag) (k : String) : Option Tag := d.find? (·.name == k)
+
+/-- `is_correct_tag(tag)`: on the token level a `Tag` stands for a string that passed (text level: `GfaText.parseTag`) -/
+def tagOk (_ : Tag) : Bool := true
+
+/-- `self.contigs[k]` (read) / `self.contigs[k] = v` -/
+def ctgGet (d : List (String × Int)) (k : String) : Option Int := (d.find? (·.1 == k)).map (·.2)
+def ctgSet (d : List (String × Int)) (k : String) (v : Int) : List (String × Int) :=
+  if d.any (·.1 == k) then d.map (fun e => if e.1 == k then (k, v) else e) else d ++ [(k, v)]
+
+/-- `self.contig_to_nodes[k].append(v)` -/
+def c2nAppend (d : List (String × List String)) (k v : String) : List (String × List String) :=
+  if d.any (·.1 == k) then d.map (fun e => if e.1 == k then (e.1, e.2 ++ [v]) else e) else d ++ [(k, [v])]
+
+/-- `self.add_edge(a, da, b, db, ov, tags)`: `Gfa.addEdge` is tied to the source by Gen/Edges.lean (`TieA.addEdge_gen`); it files the
+    tags always, the source does so `if tags:` -/
+def callAddEdge (g : Graph) (a : String) (da : Bool) (b : String) (db : Bool) (ov : Nat) (t : ETags) : Graph :=
+  if t.truthy then addEdge g ⟨a, da, b, db, ov, t.enc⟩ else { addEdge g ⟨a, da, b, db, ov, t.enc⟩ with edgeTags := g.edgeTags }
+"""
+
+GFAMUTATE_HEAD = ("import Gaftools.Model.Gfa\nimport Gaftools.Model.TextLayer\n"
+                  "/-! %s -/\n"
+                  "set_option linter.unusedVariables false\n"
+                  "namespace Gaftools.Gen.GfaMutate\nopen Gaftools.Gfa\n\n")
+
+
+def _gm_expect_body(cls_fn, want, what):
+    got = [ast.unparse(x) for x in _gm_body(cls_fn)]
+    if got != want:
+        raise Untranslatable("%s is not what the translation assumes: %s" % (what, got))
+
+
+def gen_gfa_mutate():
+    try:
+        return _gen_gfa_mutate()
+    except (Untranslatable, SyntaxError, OSError, KeyError, IndexError):
+        raise
+    except Exception as e:  # a shape the translator did not foresee is never an alarm
+        raise Untranslatable("translator: %s: %s" % (type(e).__name__, e))
+
+
+def _gen_gfa_mutate():
+    _, src = src_of("gaftools/gfa.py")
+    mod = ast.parse(src)
+    # -- the container protocol of GFA the three methods go through
+    _gm_expect_body(find_func(mod, "__contains__", cls="GFA"), ["return key in self.nodes"], "GFA.__contains__")
+    _gm_expect_body(find_func(mod, "__getitem__", cls="GFA"), ["try:\n    return self.nodes[key]\nexcept KeyError:\n    return None"], "GFA.__getitem__")
+    _gm_expect_body(find_func(mod, "__setitem__", cls="GFA"),
+                    ["if isinstance(value, Node):\n    self.nodes[key] = value\nelse:\n    raise ValueError('the object given to set should be a Node object')"],
+                    "GFA.__setitem__")
+    if [a.arg for a in find_func(mod, "remove_edge", cls="GFA").args.args] != ["self", "edge"]:
+        raise Untranslatable("remove_edge signature")
+    if [a.arg for a in find_func(mod, "add_edge", cls="GFA").args.args] != ["self", "node1", "node1_dir", "node2", "node2_dir", "overlap", "tags"]:
+        raise Untranslatable("add_edge signature")
+    # -- Node.__init__: one assignment per slot
+    ni = find_func(mod, "__init__", cls="Node")
+    if [a.arg for a in ni.args.args] != ["self", ni.args.args[1].arg] or len(ni.args.args) != 2:
+        raise Untranslatable("Node.__init__ signature")
+    ident = ni.args.args[1].arg
+    fields, ghost = {}, {}
+    for st in _gm_body(ni):
+        if not (isinstance(st, ast.Assign) and len(st.targets) == 1 and isinstance(st.targets[0], ast.Attribute)
+                and isinstance(st.targets[0].value, ast.Name) and st.targets[0].value.id == "self"):
+            raise Untranslatable("Node.__init__: %s" % ast.unparse(st)[:60])
+        slot, v = st.targets[0].attr, st.value
+        u = ast.unparse(v)
+        if slot in fields or slot in ghost:
+            raise Untranslatable("Node.__init__ assigns %s twice" % slot)
+        if slot in _GM_NODE_FIELDS:
+            fld, ty = _GM_NODE_FIELDS[slot]
+            if ty == "String" and isinstance(v, ast.Name) and v.id == ident:
+                fields[fld] = "identifier"
+            elif ty == "String" and isinstance(v, ast.Constant) and isinstance(v.value, str):
+                fields[fld] = _gm_str(v.value)
+            elif ty == "AdjList" and u == "set()":
+                fields[fld] = "[]"
+            elif ty == "TagDict" and u in ("dict()", "{}"):
+                fields[fld] = "[]"
+            else:
+                raise Untranslatable("Node.__init__: %s" % ast.unparse(st)[:60])
+        elif slot == "seq_len" and isinstance(v, ast.Constant) and isinstance(v.value, int) and not isinstance(v.value, bool) and v.value >= 0:
+            ghost[slot] = str(v.value)
+        elif slot == "visited" and isinstance(v, ast.Constant) and isinstance(v.value, bool):
+            ghost[slot] = "true" if v.value else "false"
+        else:
+            raise Untranslatable("Node.__init__: %s" % ast.unparse(st)[:60])
+    if set(fields) != {"id", "seq", "startAdj", "endAdj", "tags"} or set(ghost) != set(_GM_NODE_GHOST):
+        raise Untranslatable("Node.__init__ does not set every slot")
+    if fields["id"] != "identifier":
+        raise Untranslatable("Node.__init__: id")
+    new_node = "{ " + ", ".join("%s := %s" % (f, fields[f]) for f in ("id", "seq", "startAdj", "endAdj", "tags")) + " }"
+    # -- GFA.__init__: the empty object, and the call of read_graph
+    gi = find_func(mod, "__init__", cls="GFA")
+    init, loads = {}, False
+    want_init = {"nodes": ("dict()",), "edge_tags": ("dict()",), "contigs": ("defaultdict(lambda: None)",), "contig_to_nodes": ("defaultdict(lambda: [])", "defaultdict(list)")}
+    for st in _gm_body(gi):
+        if isinstance(st, ast.Assign) and len(st.targets) == 1 and isinstance(st.targets[0], ast.Attribute) and _gm_is_self(st.targets[0].value):
+            slot = st.targets[0].attr
+            if slot in want_init:
+                if ast.unparse(st.value) not in want_init[slot] or slot in init:
+                    raise Untranslatable("GFA.__init__: %s" % ast.unparse(st)[:60])
+                init[slot] = "[]"
+            elif slot != "low_memory":
+                raise Untranslatable("GFA.__init__: %s" % ast.unparse(st)[:60])
+        elif isinstance(st, ast.If) and ast.unparse(st.test) == "graph_file" and not st.orelse:
+            calls = [x for x in st.body if isinstance(x, ast.Expr)]
+            if len(calls) != 1 or ast.unparse(calls[0]) != "self.read_graph(gfa_file_path=graph_file, low_memory=low_memory)" or calls[0] is not st.body[-1]:
+                raise Untranslatable("GFA.__init__: the call of read_graph")
+            if set(init) != set(want_init):
+                raise Untranslatable("GFA.__init__: read_graph is called before the object is set up")
+            loads = True
+        else:
+            raise Untranslatable("GFA.__init__: %s" % ast.unparse(st)[:60])
+    if set(init) != set(want_init) or not loads:
+        raise Untranslatable("GFA.__init__")
+    # -- add_node
+    fn = find_func(mod, "add_node", cls="GFA")
+    if [a.arg for a in fn.args.args] != ["self", "node_id", "seq", "tags"] or fn.args.vararg or fn.args.kwarg or fn.args.kwonlyargs:
+        raise Untranslatable("add_node signature")
+    an = _GM("addNode", {"node_id": "String", "seq": "String", "tags": "TagList"})
+    an_body = an.function(fn, "add_node", node_ghost=ghost)
+    if len(an.node_key) != 1:
+        raise Untranslatable("add_node creates %d nodes" % len(an.node_key))
+    nv = list(an.node_key)[0]
+    # -- remove_node
+    fn = find_func(mod, "remove_node", cls="GFA")
+    if [a.arg for a in fn.args.args] != ["self", "n_id"]:
+        raise Untranslatable("remove_node signature")
+    rn = _GM("removeNode", {"n_id": "String"})
+    rn_body = rn.function(fn, "remove_node")
+    # -- read_graph
+    fn = find_func(mod, "read_graph", cls="GFA")
+    if [a.arg for a in fn.args.args] != ["self", "gfa_file_path", "low_memory"]:
+        raise Untranslatable("read_graph signature")
+    rg = _GM("readGraph", {"low_memory": "Bool"})
+    # a list that starts empty and receives the loop variable of a `for`: the lines kept for the second pass
+    kept = {}
+    for loop in [n for n in ast.walk(fn) if isinstance(n, ast.For) and isinstance(n.target, ast.Name)]:
+        for n in ast.walk(loop):
+            if (isinstance(n, ast.Call) and isinstance(n.func, ast.Attribute) and n.func.attr == "append" and isinstance(n.func.value, ast.Name)
+                    and len(n.args) == 1 and isinstance(n.args[0], ast.Name) and n.args[0].id == loop.target.id):
+                kept[n.func.value.id] = ("List", "TLineL")
+            if (isinstance(loop.iter, ast.Name) and isinstance(n, ast.Call) and isinstance(n.func, ast.Attribute) and n.func.attr == "strip"
+                    and isinstance(n.func.value, ast.Name) and n.func.value.id == loop.target.id):
+                kept.setdefault(loop.iter.id, ("List", "TLineL"))      # … or is read as lines in the second pass
+    rg_body = rg.function(fn, "read_graph", decl=kept,
+                          tracked={"gfa_file_path", "os", "gzip", "sys", "logging", "open", "ValueError", "FileNotFoundError"})
+    if not rg.lines_used or rg.loops != 2:
+        raise Untranslatable("read_graph: the loop over the file and the loop over the links were not found")
+
+    def defs(tr):
+        return "".join(d + "\n\n" for _, d in tr.defs)
+    return (GFAMUTATE_HEAD % ("generated by harness/translate.py from gaftools/gfa.py : Node.__init__, GFA.__init__, GFA.add_node, GFA.remove_node,\n"
+                              "    GFA.read_graph — every statement in source order, on the token level of Model/Gfa.lean (an S line is `(id, seq, tags)` with the\n"
+                              "    tags already split at their first two ':', an L line `(a, ±, b, ±, overlap, tags)`); `.error` = the Python raises — do not edit")
+            + GFAMUTATE_PRELUDE
+            + "\n/-- `Node(%s)`: the slots the model stores -/\n" % ident
+            + "def newNode (identifier : String) : Node := %s\n" % new_node
+            + "/-- … and the two it derives: `seq_len`, `visited` -/\n"
+            + "def newNodeSeqLen : Nat := %s\ndef newNodeVisited : Bool := %s\n\n" % (ghost["seq_len"], ghost["visited"])
+            + "/-- `GFA()` before anything is read -/\n"
+            + "def initSt : St := { g := { nodes := %s, edgeTags := %s }, contigs := %s, c2n := %s }\n\n" % (
+                init["nodes"], init["edge_tags"], init["contigs"], init["contig_to_nodes"])
+            + defs(an)
+            + "/-- `add_node(node_id, seq, tags)` (`tags=None` is the empty list) -/\n"
+            + "def addNode (σ : St) (node_id seq : String) (tags : List Tag) : Except Exc St :=\n" + an_body + "\n\n"
+            + "/-- the derived slots of the node `add_node` stores -/\n"
+            + "def addNodeSeqLen (node_id seq : String) (tags : List Tag) : Nat := %s\n" % an.ghost[(nv, "seq_len")]
+            + "def addNodeVisited (node_id seq : String) (tags : List Tag) : Bool := %s\n\n" % an.ghost[(nv, "visited")]
+            + defs(rn)
+            + "/-- `remove_node(n_id)` -/\n"
+            + "def removeNode (σ : St) (n_id : String) : Except Exc St :=\n" + rn_body + "\n\n"
+            + defs(rg)
+            + "/-- `read_graph(path, low_memory)`; `lines` = what iterating over the opened file yields -/\n"
+            + "def readGraph (σ : St) (lines : List TLine) (low_memory : Bool) : Except Exc St :=\n" + rg_body + "\n\n"
+            + "/-- `GFA(graph_file, low_memory)` -/\n"
+            + "def load (lines : List TLine) (low_memory : Bool) : Except Exc St := readGraph initSt lines low_memory\n"
+            + "end Gaftools.Gen.GfaMutate\n")
+
+
+GENERATORS["GfaMutate"] = gen_gfa_mutate
+
+
+# ---------------------------------------------------------------------------------------------------------
 # phase.add_phase_info: the loop that reads the haplotag TSV (C20), statement by statement; class Node's constructor;
 # utils.reverse_cigar (C02) statement by statement; utils.is_file_gzipped (the magic number)
 
@@ -9004,6 +10730,218 @@ FALLBACK = {
     "ViewSel": ("import Gaftools.Model.View\nimport Gaftools.Model.TextLayer\n"
                 "/-! FALLBACK (source construct outside the translator's subset): `search`, `get_unstable` and the selecting branch of `run` as\n"
                 "    translated from the source the tie was made against -/\n" + VIEWSEL_PRELUDE + "\n" + VIEWSEL_FALLBACK_DEFS + "\n\nend Gaftools.Gen.ViewSel\n"),
+    "WriteGfa": WRITE_GFA_PRELUDE % ("FALLBACK (source construct outside the translator's subset): a frozen copy of the translation of Node.to_gfa_line,\n"
+                                     "    GFA.sort_bo_no and GFA.write_gfa (gaftools/gfa.py)") + r"""def toGfaLineFor1 (self : Node) (st : (List Str)) (it : String × String × String) : Option ((List Str)) :=
+  let tags : List Str := st
+  let tag_id : String := it.1
+  let tag : String × String := it.2
+  let tags : List Str := (tags ++ [(tag_id.toList ++ [':'] ++ tag.1.toList ++ [':'] ++ tag.2.toList)])
+  some tags
+
+/-- `Node.to_gfa_line(with_seq)` -/
+def toGfaLine (self : Node) (with_seq : Bool) : Option Str :=
+  let seq : Str := (if with_seq then (if (self.seq == "") then ['*'] else self.seq.toList) else ['*'])
+  let tags : List Str := []
+  match (tagItems self).foldlM (toGfaLineFor1 self) tags with
+  | none => none
+  | some tags =>
+  match pyJoin ['\t'] ([(PyV.str ['S']), (PyV.str self.id.toList), (PyV.str seq)] ++ (tags.map PyV.str)) with
+  | none => none
+  | some v1 =>
+  some v1
+
+def sortBoNoFor1 (g : Graph) (tagv : String → String → Option Int) (st : (List (Int × (List String)))) (it : String) : Option ((List (Int × (List String)))) :=
+  let separate_bubbles : List (Int × (List String)) := st
+  let n : String := it
+  match tagv "BO" n with
+  | none => none
+  | some v1 =>
+  if (!(dictHas separate_bubbles v1)) then
+    match tagv "BO" n with
+    | none => none
+    | some v2 =>
+    let separate_bubbles : List (Int × (List String)) := dictSet separate_bubbles v2 [n]
+    some separate_bubbles
+  else
+    match tagv "BO" n with
+    | none => none
+    | some v3 =>
+    match dictGet separate_bubbles v3 with
+    | none => none
+    | some v4 =>
+    let separate_bubbles : List (Int × (List String)) := dictSet separate_bubbles v3 (v4 ++ [n])
+    some separate_bubbles
+
+def sortBoNoFor2 (g : Graph) (tagv : String → String → Option Int) (st : (List Int) × (List (Int × (List String)))) (it : Int × (List String)) : Option ((List Int) × (List (Int × (List String)))) :=
+  let bo_ids : List Int := st.1
+  let separate_bubbles : List (Int × (List String)) := st.2
+  let bo : Int := it.1
+  let n_list : List String := it.2
+  let bo_ids : List Int := (bo_ids ++ [bo])
+  match dictGet separate_bubbles bo with
+  | none => none
+  | some v5 =>
+  match v5.mapM (fun x => (tagv "NO" x)) with
+  | none => none
+  | some v7 =>
+  let separate_bubbles : List (Int × (List String)) := dictSet separate_bubbles bo (sortedBy v7 v5)
+  some (bo_ids, separate_bubbles)
+
+def sortBoNoFor4 (g : Graph) (tagv : String → String → Option Int) (st : (List String)) (it : String) : Option ((List String)) :=
+  let sorted_set_of_nodes : List String := st
+  let n_id : String := it
+  let sorted_set_of_nodes : List String := (sorted_set_of_nodes ++ [n_id])
+  some sorted_set_of_nodes
+
+def sortBoNoFor3 (g : Graph) (tagv : String → String → Option Int) (separate_bubbles : List (Int × (List String))) (st : (List String)) (it : Int) : Option ((List String)) :=
+  let sorted_set_of_nodes : List String := st
+  let bo : Int := it
+  match dictGet separate_bubbles bo with
+  | none => none
+  | some v8 =>
+  match v8.foldlM (sortBoNoFor4 g tagv) sorted_set_of_nodes with
+  | none => none
+  | some sorted_set_of_nodes =>
+  some sorted_set_of_nodes
+
+/-- `GFA.sort_bo_no(set_of_nodes)` -/
+def sortBoNo (g : Graph) (tagv : String → String → Option Int) (set_of_nodes : List String) : Option (List String) :=
+  let separate_bubbles : List (Int × (List String)) := []
+  match set_of_nodes.foldlM (sortBoNoFor1 g tagv) separate_bubbles with
+  | none => none
+  | some separate_bubbles =>
+  let bo_ids : List Int := []
+  match separate_bubbles.foldlM (sortBoNoFor2 g tagv) (bo_ids, separate_bubbles) with
+  | none => none
+  | some (bo_ids, separate_bubbles) =>
+  let sorted_set_of_nodes : List String := []
+  match (pySorted bo_ids).foldlM (sortBoNoFor3 g tagv separate_bubbles) sorted_set_of_nodes with
+  | none => none
+  | some sorted_set_of_nodes =>
+  some sorted_set_of_nodes
+
+def writeGfaFor1 (g : Graph) (tagv : String → String → Option Int) (st : Str) (it : String) : Option (Str) :=
+  let f : Str := st
+  let n : String := it
+  if (!(g.has n)) then
+    some f
+  else
+    match g.find n with
+    | none => none
+    | some v3 =>
+    match toGfaLine v3 true with
+    | none => none
+    | some v4 =>
+    let line : Str := v4
+    let f : Str := (f ++ (line ++ ['\n']))
+    some f
+
+def writeGfaFor3 (g : Graph) (tagv : String → String → Option Int) (set_of_nodes : List String) (n1 : String) (st : (List Str)) (it : String × Bool × Nat) : Option ((List Str)) :=
+  let edges : List Str := st
+  let n : String × Bool × Nat := it
+  let overlap : Str := ((strNat n.2.2) ++ ['M'])
+  if (set_of_nodes.contains n.1) then
+    let tags : List PyV := (match edgeTagsPy g (n1, false, n.1, n.2.1) with | some v6 => v6 | none => [])
+    if (!tags.isEmpty) then
+      match tags[0]? with
+      | none => none
+      | some v7 =>
+      let tags : List PyV := (if (v7 == (PyV.int 0)) then [] else tags)
+      if (n.2.1 == false) then
+        match pyJoin ['\t'] ([(PyV.str ['L']), (PyV.str n1.toList), (PyV.str ['-']), (PyV.str n.1.toList), (PyV.str ['+']), (PyV.str overlap)] ++ tags) with
+        | none => none
+        | some v8 =>
+        let edge : Str := v8
+        let edges : List Str := (edges ++ [edge])
+        some edges
+      else
+        match pyJoin ['\t'] ([(PyV.str ['L']), (PyV.str n1.toList), (PyV.str ['-']), (PyV.str n.1.toList), (PyV.str ['-']), (PyV.str overlap)] ++ tags) with
+        | none => none
+        | some v9 =>
+        let edge : Str := v9
+        let edges : List Str := (edges ++ [edge])
+        some edges
+    else
+      some edges
+  else
+    some edges
+
+def writeGfaFor4 (g : Graph) (tagv : String → String → Option Int) (set_of_nodes : List String) (n1 : String) (st : (List Str)) (it : String × Bool × Nat) : Option ((List Str)) :=
+  let edges : List Str := st
+  let n : String × Bool × Nat := it
+  let overlap : Str := ((strNat n.2.2) ++ ['M'])
+  if (set_of_nodes.contains n.1) then
+    let tags : List PyV := (match edgeTagsPy g (n1, true, n.1, n.2.1) with | some v11 => v11 | none => [])
+    if (!tags.isEmpty) then
+      match tags[0]? with
+      | none => none
+      | some v12 =>
+      let tags : List PyV := (if (v12 == (PyV.int 0)) then [] else tags)
+      if (n.2.1 == false) then
+        match pyJoin ['\t'] ([(PyV.str ['L']), (PyV.str n1.toList), (PyV.str ['+']), (PyV.str n.1.toList), (PyV.str ['+']), (PyV.str overlap)] ++ tags) with
+        | none => none
+        | some v13 =>
+        let edge : Str := v13
+        let edges : List Str := (edges ++ [edge])
+        some edges
+      else
+        match pyJoin ['\t'] ([(PyV.str ['L']), (PyV.str n1.toList), (PyV.str ['+']), (PyV.str n.1.toList), (PyV.str ['-']), (PyV.str overlap)] ++ tags) with
+        | none => none
+        | some v14 =>
+        let edge : Str := v14
+        let edges : List Str := (edges ++ [edge])
+        some edges
+    else
+      some edges
+  else
+    some edges
+
+def writeGfaFor5 (g : Graph) (tagv : String → String → Option Int) (st : Str) (it : Str) : Option (Str) :=
+  let f : Str := st
+  let e : Str := it
+  let f : Str := (f ++ (e ++ ['\n']))
+  some f
+
+def writeGfaFor2 (g : Graph) (tagv : String → String → Option Int) (set_of_nodes : List String) (st : Str) (it : String) : Option (Str) :=
+  let f : Str := st
+  let n1 : String := it
+  if (!(g.has n1)) then
+    some f
+  else
+    let edges : List Str := []
+    match g.find n1 with
+    | none => none
+    | some v5 =>
+    match v5.startAdj.foldlM (writeGfaFor3 g tagv set_of_nodes n1) edges with
+    | none => none
+    | some edges =>
+    match g.find n1 with
+    | none => none
+    | some v10 =>
+    match v10.endAdj.foldlM (writeGfaFor4 g tagv set_of_nodes n1) edges with
+    | none => none
+    | some edges =>
+    match edges.foldlM (writeGfaFor5 g tagv) f with
+    | none => none
+    | some f =>
+    some f
+
+/-- `GFA.write_gfa(set_of_nodes, output_file, append, order_bo)` -/
+def writeGfa (g : Graph) (tagv : String → String → Option Int) (set_of_nodes : Option (List String)) (old : Option Str) (append order_bo : Bool) : Option Str :=
+  let set_of_nodes : List String := (match set_of_nodes with | none => (g.nodes.map (·.id)) | some v1 => v1)
+  match (if order_bo then (sortBoNo g tagv set_of_nodes) else (some set_of_nodes)) with
+  | none => none
+  | some sorted_set_of_nodes =>
+  let f : Str := (if (append == false) then [] else (if old.isSome then (old.getD []) else []))
+  match sorted_set_of_nodes.foldlM (writeGfaFor1 g tagv) f with
+  | none => none
+  | some f =>
+  match sorted_set_of_nodes.foldlM (writeGfaFor2 g tagv set_of_nodes) f with
+  | none => none
+  | some f =>
+  some f
+end Gaftools.Gen.WriteGfa
+""",
     "Search": SEARCH_HEADER % ("FALLBACK (source construct outside the translator's subset): a frozen copy of the translation of the three functions\n"
                                "    as the source stood when `Props/TieA12.lean` was written") + r'''/-- the test of the `while` of `find_component` -/
 def fcCond (σ : FcSt) : Bool := decide (σ.queue.length > 0)
@@ -9463,6 +11401,199 @@ def cmpGaf (al1 al2 : Aln) : Option Int := Gaftools.Sort.cmpGaf al1 al2
 end Gaftools.Gen
 """,
 }
+
+FALLBACK["GfaMutate"] = GFAMUTATE_HEAD % ("FALLBACK (source construct outside the translator's subset): a frozen copy of the translation of\n"
+                                           "    Node.__init__, GFA.__init__, add_node, remove_node, read_graph as the source stood when `Props/TieA20.lean` was written") + GFAMUTATE_PRELUDE + r'''
+/-- `Node(identifier)`: the slots the model stores -/
+def newNode (identifier : String) : Node := { id := identifier, seq := "", startAdj := [], endAdj := [], tags := [] }
+/-- … and the two it derives: `seq_len`, `visited` -/
+def newNodeSeqLen : Nat := 0
+def newNodeVisited : Bool := false
+
+/-- `GFA()` before anything is read -/
+def initSt : St := { g := { nodes := [], edgeTags := [] }, contigs := [], c2n := [] }
+
+/-- the body of `for tag in tags:` of `add_node`; the state is the object and the variables the body assigns -/
+def addNodeLoop1 (node_id : String) (st : St) (tag : Tag) : Except Exc (St) :=
+  let σ : St := st
+  if (!(tagOk tag)) then
+    .error .valueError
+  else
+    let tag : Tag := tag
+    match σ.g.find node_id with
+    | none => .error .attributeError
+    | some v1 =>
+    let σ : St := { σ with g := nodeMod σ.g node_id (fun nd => { nd with tags := tagSet nd.tags ⟨tag.name, tag.ty, tag.val⟩ }) }
+    .ok σ
+
+/-- `add_node(node_id, seq, tags)` (`tags=None` is the empty list) -/
+def addNode (σ : St) (node_id seq : String) (tags : List Tag) : Except Exc St :=
+  let tags : List Tag := if tags.isEmpty then [] else tags
+  let node_id : String := node_id
+  if (!(σ.g.has node_id)) then
+    let node : Node := newNode node_id
+    let node : Node := { node with seq := seq }
+    let σ : St := { σ with g := nodesSet σ.g node_id node }
+    match forE tags σ (addNodeLoop1 node_id) with
+    | .error err => .error err
+    | .ok σ =>
+    match σ.g.find node_id with
+    | none => .error .attributeError
+    | some v3 =>
+    if ((tagsHas v3.tags "SN") && (tagsHas v3.tags "SR")) then
+      match σ.g.find node_id with
+      | none => .error .attributeError
+      | some v4 =>
+      match tagsGet v4.tags "SN" with
+      | none => .error .keyError
+      | some v5 =>
+      let contig_name : String := v5.val
+      match σ.g.find node_id with
+      | none => .error .attributeError
+      | some v6 =>
+      match tagsGet v6.tags "SR" with
+      | none => .error .keyError
+      | some v7 =>
+      match Gaftools.TextLayer.pyInt v7.val.toList with
+      | none => .error .valueError
+      | some v8 =>
+      let contig_rank : Int := v8
+      if (ctgGet σ.contigs contig_name).isNone then
+        let σ : St := { σ with contigs := ctgSet σ.contigs contig_name contig_rank }
+        .ok σ
+      else
+        if ((ctgGet σ.contigs contig_name) == (some contig_rank)) then
+          .ok σ
+        else
+          .error .assertionError
+    else
+      .ok σ
+  else
+    .ok σ
+
+/-- the derived slots of the node `add_node` stores -/
+def addNodeSeqLen (node_id seq : String) (tags : List Tag) : Nat := seq.length
+def addNodeVisited (node_id seq : String) (tags : List Tag) : Bool := false
+
+/-- the body of `for n_start in starts:` of `remove_node`; the state is the object and the variables the body assigns -/
+def removeNodeLoop1 (n_id : String) (st : St) (n_start : Adj) : Except Exc (St) :=
+  let σ : St := st
+  let overlap : Nat := n_start.2.2
+  let σ : St := { σ with g := removeEdge σ.g n_id false n_start.1 n_start.2.1 overlap }
+  .ok σ
+
+/-- the body of `for n_end in ends:` of `remove_node`; the state is the object and the variables the body assigns -/
+def removeNodeLoop2 (n_id : String) (st : St) (n_end : Adj) : Except Exc (St) :=
+  let σ : St := st
+  let overlap : Nat := n_end.2.2
+  let σ : St := { σ with g := removeEdge σ.g n_id true n_end.1 n_end.2.1 overlap }
+  .ok σ
+
+/-- `remove_node(n_id)` -/
+def removeNode (σ : St) (n_id : String) : Except Exc St :=
+  match σ.g.find n_id with
+  | none => .error .keyError
+  | some v1 =>
+  let starts : List Adj := v1.startAdj
+  match forE starts σ (removeNodeLoop1 n_id) with
+  | .error err => .error err
+  | .ok σ =>
+  match σ.g.find n_id with
+  | none => .error .keyError
+  | some v2 =>
+  let ends : List Adj := v2.endAdj
+  match forE ends σ (removeNodeLoop2 n_id) with
+  | .error err => .error err
+  | .ok σ =>
+  if (σ.g.has n_id) then
+    let σ : St := { σ with g := nodesDel σ.g n_id }
+    .ok σ
+  else
+    .error .keyError
+
+/-- the body of `for line in opened_file:` of `read_graph`; the state is the object and the variables the body assigns -/
+def readGraphLoop1 (low_memory : Bool) (st : St × (List TLine)) (line : TLine) : Except Exc (St × (List TLine)) :=
+  let σ : St := st.1
+  let edges : List TLine := st.2
+  if (line.first == some 'S') then
+    let line : SegLine := line.seg
+    if decide ((3 + line.tags.length) ≥ 3) then
+      if low_memory then
+        match addNode σ line.id "" line.tags with
+        | .error err => .error err
+        | .ok σ =>
+        match σ.g.find line.id with
+        | none => .error .attributeError
+        | some v1 =>
+        if (tagsHas v1.tags "SN") then
+          match σ.g.find line.id with
+          | none => .error .attributeError
+          | some v2 =>
+          match tagsGet v2.tags "SN" with
+          | none => .error .keyError
+          | some v3 =>
+          let σ : St := { σ with c2n := c2nAppend σ.c2n v3.val line.id }
+          .ok (σ, edges)
+        else
+          .ok (σ, edges)
+      else
+        match addNode σ line.id line.seq line.tags with
+        | .error err => .error err
+        | .ok σ =>
+        match σ.g.find line.id with
+        | none => .error .attributeError
+        | some v4 =>
+        if (tagsHas v4.tags "SN") then
+          match σ.g.find line.id with
+          | none => .error .attributeError
+          | some v5 =>
+          match tagsGet v5.tags "SN" with
+          | none => .error .keyError
+          | some v6 =>
+          let σ : St := { σ with c2n := c2nAppend σ.c2n v6.val line.id }
+          .ok (σ, edges)
+        else
+          .ok (σ, edges)
+    else
+      .error .assertionError
+  else
+    if (line.first == some 'L') then
+      let edges : List TLine := edges ++ [line]
+      .ok (σ, edges)
+    else
+      .ok (σ, edges)
+
+/-- the body of `for e in edges:` of `read_graph`; the state is the object and the variables the body assigns -/
+def readGraphLoop2 (st : St) (e : TLine) : Except Exc (St) :=
+  let σ : St := st
+  let e : LinkLine := e.link
+  if decide ((6 + e.tags.length) ≥ 6) then
+    let e_tags : ETags := (ETags.fields e.tags)
+    let e : LinkLine := e
+    if ((!(σ.g.has e.a)) || (!(σ.g.has e.b))) then
+      .ok σ
+    else
+      let e_tags : ETags := if (!e_tags.truthy) then ETags.zero else e_tags
+      let σ : St := { σ with g := callAddEdge σ.g e.a e.da e.b e.db e.ov e_tags }
+      .ok σ
+  else
+    .error .assertionError
+
+/-- `read_graph(path, low_memory)`; `lines` = what iterating over the opened file yields -/
+def readGraph (σ : St) (lines : List TLine) (low_memory : Bool) : Except Exc St :=
+  let edges : List TLine := []
+  match forE lines (σ, edges) (readGraphLoop1 low_memory) with
+  | .error err => .error err
+  | .ok (σ, edges) =>
+  match forE edges σ (readGraphLoop2) with
+  | .error err => .error err
+  | .ok σ =>
+  .ok σ
+
+/-- `GFA(graph_file, low_memory)` -/
+def load (lines : List TLine) (low_memory : Bool) : Except Exc St := readGraph initSt lines low_memory
+end Gaftools.Gen.GfaMutate
+'''
 
 FALLBACK["RealignWorker"] = _RW_PRELUDE % ("FALLBACK (source construct outside the translator's subset): a frozen copy of the translation of wfa_alignment and of\n"
                                            "    the batch entry of realign_gaf as the source stood when `Props/TieA19.lean` was written") + r"""/-- the body of `for k in gaf_line.tags.keys()` -/
